@@ -39,8 +39,11 @@ CONSTANTS Deviations,     \* subset of AllDevs: what the implementation model ma
 VARIABLES stage, op, args, exp, impl, ideal, why
 vars == <<stage, op, args, exp, impl, ideal, why>>
 
-AllDevs == {"reduce_int_keeps_dtype", "all_any_uint8_bool", "squeeze_dim_non_unit", "reshape_zero_copies",
-            "narrow_negative_start", "cat_empty_not_filtered", "chunk_count"}
+AllDevs == {"alpha_scalar_other_type", "reduce_int_keeps_dtype", "all_any_uint8_bool", "any_empty_true", "any_all_dims_empty_list",
+            "any_all_dims_scalar_input", "argmax_none_keepdim_shape", "amax_dim_required", "amax_scalar_dims", "mean_dtype_ignored",
+            "mean_dim_none", "prod_dim_scalar_input", "squeeze_dim_non_unit", "reshape_zero_copies", "broadcast_to_minus_one",
+            "flatten_zero_size", "narrow_negative_start", "cat_legacy_empty", "chunk_single_not_list", "chunk_count", "split_empty_dim",
+            "roll_onnx_edges", "flip_scalar", "pad_scalar", "arange_mixed_scalars", "batch_norm_half"}
 NoDevs == {}
 
 -----------------------------------------------------------------------------
@@ -132,11 +135,12 @@ ShapesQ == {<<>>, <<0>>, <<1>>, <<3>>, <<2, 3>>, <<1, 3>>, <<2, 1>>, <<0, 2>>, <
 ShapesW == ShapesQ \cup {<<4>>, <<5>>, <<3, 3>>, <<1, 1>>, <<3, 1, 2>>, <<1, 1, 1>>, <<2, 3, 2>>, <<0, 0>>, <<2, 1, 2, 2>>, <<1, 2, 3, 1>>, <<2, 0, 1, 2>>}
 Shapes == IF Wide THEN ShapesW ELSE ShapesQ
 \* pairs for broadcasting
-PairsQ == {<<<<>>, <<>>>>, <<<<3>>, <<>>>>, <<<<>>, <<3>>>>, <<<<2, 3>>, <<3>>>>, <<<<3>>, <<2, 3>>>>, <<<<2, 1>>, <<1, 3>>>>,
-           <<<<0>>, <<>>>>, <<<<0>>, <<1>>>>, <<<<2, 0>>, <<1>>>>, <<<<2, 1, 3>>, <<2, 1>>>>, <<<<1>>, <<2, 2, 2>>>>,
-           <<<<2, 3>>, <<2, 3>>>>, <<<<1, 0>>, <<3, 1>>>>}
+PairsQ == {<<<<>>, <<>>>>, <<<<3>>, <<>>>>, <<<<>>, <<3>>>>, <<<<3>>, <<2, 3>>>>, <<<<2, 1>>, <<1, 3>>>>,
+           <<<<0>>, <<1>>>>, <<<<2, 1, 3>>, <<2, 1>>>>, <<<<2, 3>>, <<2, 3>>>>, <<<<1, 0>>, <<3, 1>>>>}
 Pairs == IF Wide THEN {<<x, y>> \in Shapes \X Shapes : BroadcastShape(x, y) # NOSHAPE} ELSE PairsQ
 AllDts == {"bool", "u8", "i32", "i64", "f16", "f32", "f64"}
+\* quick tier: the element types whose handling differs in the code (bool / unsigned / narrow int / default int / half / default float)
+SomeDts == IF Wide THEN AllDts ELSE {"bool", "u8", "i32", "i64", "f16", "f32"}
 NumDts == AllDts \ {"bool"}
 FloatDts == {"f16", "f32", "f64"}
 DimsOf(r) == (-r)..(r - 1)
@@ -262,7 +266,7 @@ BinMenu(o) ==
      THEN UNION {{<<TA(Mk(dt, sh, 1)), s>> \o m \o al
               : s \in (IF BinFun(o, m) \in DivF THEN NZScalarsFor(dt) ELSE ScalarsFor(dt)),
                 al \in {<<>>} \cup (IF HasAlpha(o) /\ sh \in {<<3>>, <<2, 3>>} THEN {<<KW("alpha", x)>> : x \in AlphasFor(dt)} ELSE {})}
-              : sh \in Shapes}
+              : sh \in (IF Wide THEN Shapes ELSE {<<>>, <<0>>, <<3>>, <<2, 3>>, <<2, 1, 3>>})}
      ELSE {})
     : dt \in AllDts, m \in ModesFor(o)}
 
@@ -306,7 +310,8 @@ UnAten(o, a) ==
       odt == IF f \in {"lnot", "false", "true"} THEN "bool" ELSE dt
   IN IF f = "float" THEN Struct(dt, self.shape)
      ELSE One(Map1(self, odt, LAMBDA x : Wrap(odt, UnV(f, dt, x))))
-UnMenu(o) == {<<TA(Mk(dt, sh, p))>> : dt \in AllDts, sh \in Shapes, p \in (IF o \in UnFloat THEN {3} ELSE {1})}
+UnMenu(o) == {<<TA(Mk(dt, sh, p))>> : dt \in AllDts, sh \in (IF Wide THEN Shapes ELSE {<<>>, <<0>>, <<3>>, <<2, 3>>, <<1, 2, 0>>, <<2, 1, 3>>}),
+                                        p \in (IF o \in UnFloat THEN {3} ELSE {1})}
 
 -----------------------------------------------------------------------------
 (* ===== family "select": where / masked_fill / clamp ===== *)
@@ -337,6 +342,7 @@ SelDom(o, a) ==
      LET c == P(a, 1) x == P(a, 2) y == P(a, 3) dt == WhereDt(a) IN
      /\ c.s = "bool" /\ AllowedAt(o, 2, dt)
      /\ x.k = "t" /\ y.k = "t" => x.s = y.s
+     /\ IsNum(x) /\ IsNum(y) => x.k = y.k
      /\ IsNum(x) /\ y.k = "t" => (NumCat(x) <= Cat(dt) /\ (dt = "u8" => x.v >= 0) /\ (dt = "bool" => x.k = "b"))
      /\ IsNum(y) /\ x.k = "t" => (NumCat(y) <= Cat(dt) /\ (dt = "u8" => y.v >= 0) /\ (dt = "bool" => y.k = "b"))
      /\ ~IsErr(Map3(TOf(c), NumT(x, dt), NumT(y, dt), dt, LAMBDA p, q, r : q))
@@ -377,12 +383,12 @@ SelMenu(o) ==
       [] o = "aten::masked_fill.Scalar" ->
            {<<TA(Mk(dt, pr[1], 1)), TA(Mk("bool", pr[2], 1)), s>> : pr \in Pairs, s \in ScalarsFor(dt)}
       [] o = "aten::masked_fill.Tensor" ->
-           {<<TA(Mk(dt, pr[1], 1)), TA(Mk("bool", pr[2], 1)), TA(Scalar(dt, 2))>> : pr \in Pairs}
+           {<<TA(Mk(dt, pr[1], 1)), TA(Mk("bool", pr[2], 1)), TA(Scalar(dt, Wrap(dt, 2)))>> : pr \in Pairs}
       [] o = "aten::clamp" ->
-           {<<TA(Mk(dt, sh, 1)), lo, hi>> : sh \in Shapes, lo \in BoundsFor(dt) \cup {NA}, hi \in BoundsFor(dt) \cup {NA}}
+           {<<TA(Mk(dt, sh, 1)), lo, hi>> : sh \in (IF Wide THEN Shapes ELSE {<<>>, <<0>>, <<3>>, <<2, 3>>}), lo \in BoundsFor(dt) \cup {NA}, hi \in BoundsFor(dt) \cup {NA}}
            \cup {<<TA(Mk(dt, sh, 1)), lo>> : sh \in {<<3>>, <<2, 3>>}, lo \in BoundsFor(dt)}
       [] o = "aten::clamp.Tensor" ->
-           UNION {{<<TA(Mk(dt, pr[1], 1)), lo, hi>> : lo \in {NA, TA(Mk(dt, pr[2], 2))}, hi \in {NA, TA(Mk(dt, pr[2], 1)), TA(Scalar(dt, 1))}} : pr \in Pairs}
+           UNION {{<<TA(Mk(dt, pr[1], 1)), lo, hi>> : lo \in {NA, TA(Mk(dt, pr[2], 2))}, hi \in {NA, TA(Mk(dt, pr[2], 1)), TA(Scalar(dt, Wrap(dt, 1)))}} : pr \in Pairs}
       [] o \in {"aten::clamp_min", "aten::clamp_max"} ->
            {<<TA(Mk(dt, sh, 1)), b>> : sh \in Shapes, b \in BoundsFor(dt)}
       [] o \in {"aten::clamp_min.Tensor", "aten::clamp_max.Tensor"} ->
@@ -411,7 +417,7 @@ RedAxes(o, a) ==
   LET r == Len(P(a, 1).shape) d == RedDimArg(o, a) IN
   IF ~Given(d) THEN 0..(r - 1)
   ELSE IF d.k = "i" THEN (IF r = 0 THEN {} ELSE {ND(d.v, r)})
-  ELSE IF d.data = <<>> THEN 0..(r - 1)
+  ELSE IF d.data = <<>> THEN (IF o \in {"aten::any.dims", "aten::all.dims"} THEN {} ELSE 0..(r - 1))   \* any/all: () reduces nothing
   ELSE IF r = 0 THEN {} ELSE {ND(d.data[j], r) : j \in 1..Len(d.data)}
 RedKeep(o, a) == IF o \in {"aten::sum", "aten::prod", "aten::max", "aten::min", "aten::any", "aten::all", "aten::mean"} THEN FALSE
                  ELSE BoolOr(P(a, 3), FALSE)
@@ -428,6 +434,7 @@ RedDom(o, a) ==
   /\ o \in {"aten::max", "aten::min", "aten::argmax", "aten::argmin"} => Numel(self.shape) # 0
   /\ o \in {"aten::argmax", "aten::argmin", "aten::max.dim", "aten::min.dim"} => dt # "bool" \/ TRUE
   /\ o \in {"aten::mean", "aten::mean.dim", "aten::logsumexp"} => IsFloat(dt)
+  /\ o = "aten::logsumexp" => d.data # <<>>
   /\ Given(RedDtype(a)) /\ RedDtype(a).k = "dt" => Cat(RedDtype(a).s) >= 1
 FoldFor(k, dt, t, axes, keep) ==
   CASE k = "sum" -> Reduce(t, axes, keep, LAMBDA x, y : x + y, 0)
@@ -476,7 +483,7 @@ RedAten(o, a) ==
 RedDimLists(r) == IF r = 0 THEN {<<>>, <<0>>, <<-1>>}
                   ELSE {<<>>} \cup {<<d>> : d \in DimsOf(r)} \cup (IF r >= 2 THEN {<<0, -1>>, <<-1, 0>>, <<1, 0>>} ELSE {})
                        \cup (IF r >= 3 THEN {<<0, 1, 2>>, <<-2, 2>>} ELSE {})
-RedShapes == {<<>>, <<1>>, <<3>>, <<2, 3>>, <<2, 1>>, <<0, 2>>, <<2, 0>>, <<2, 1, 3>>, <<2, 2, 2>>} \cup (IF Wide THEN Shapes ELSE {})
+RedShapes == IF Wide THEN Shapes \cup {<<2, 2, 2>>} ELSE {<<>>, <<3>>, <<2, 3>>, <<2, 1>>, <<0, 2>>, <<2, 1, 3>>}
 DtypeKws(o, dt) == {<<>>} \cup (IF IsInt(dt) THEN {<<KW("dtype", DA("i32"))>>, <<KW("dtype", NA)>>} ELSE IF IsFloat(dt) THEN {<<KW("dtype", DA("f64"))>>} ELSE {})
 RedMenu(o) ==
   UNION {
@@ -484,7 +491,7 @@ RedMenu(o) ==
       [] o \in {"aten::max", "aten::min", "aten::any", "aten::all"} -> {<<TA(Mk(dt, sh, 1))>>}
       [] o \in {"aten::sum.dim_IntList", "aten::mean.dim"} ->
            {<<TA(Mk(dt, sh, 1)), d>> \o kd \o kw : d \in {LA(l) : l \in RedDimLists(Len(sh))} \cup {NA},
-                                                  kd \in {<<>>, <<BA(TRUE)>>, <<BA(FALSE)>>}, kw \in DtypeKws(o, dt)}
+                                                  kd \in (IF Wide THEN {<<>>, <<BA(TRUE)>>, <<BA(FALSE)>>} ELSE {<<>>, <<BA(TRUE)>>}), kw \in DtypeKws(o, dt)}
       [] o \in {"aten::amax", "aten::amin", "aten::logsumexp"} ->
            {<<TA(Mk(dt, sh, 1)), LA(l)>> \o kd : l \in RedDimLists(Len(sh)), kd \in {<<>>, <<BA(TRUE)>>}}
            \cup (IF o # "aten::logsumexp" THEN {<<TA(Mk(dt, sh, 1))>>} ELSE {})
@@ -499,21 +506,765 @@ RedMenu(o) ==
            \cup {<<TA(Mk(dt, sh, 1)), IA(d)>> \o kd : d \in (IF sh = <<>> THEN {0, -1} ELSE DimsOf(Len(sh))), kd \in {<<>>, <<BA(TRUE)>>}}
       [] o = "aten::cumsum" ->
            {<<TA(Mk(dt, sh, 1)), IA(d)>> \o kw : d \in (IF sh = <<>> THEN {0, -1} ELSE DimsOf(Len(sh))), kw \in DtypeKws(o, dt)}
-    : dt \in AllDts, sh \in RedShapes}
+    : dt \in SomeDts, sh \in RedShapes}
+
+-----------------------------------------------------------------------------
+(* ===== family "view": view / reshape / expand / permute / squeeze / unsqueeze / flatten / transpose ===== *)
+ViewOps == {"aten::view", "aten::reshape", "aten::_unsafe_view", "aten::view_copy", "aten::expand", "aten::broadcast_to",
+            "aten::permute", "aten::squeeze", "aten::squeeze.dim", "aten::unsqueeze", "aten::flatten.using_ints",
+            "aten::transpose.int", "aten::t", "aten::expand_as", "aten::view_as", "aten::unflatten.int"}
+IsReshape(o) == o \in {"aten::view", "aten::reshape", "aten::_unsafe_view", "aten::view_copy"}
+IsExpand(o) == o \in {"aten::expand", "aten::broadcast_to"}
+Count(s, v) == Cardinality({i \in 1..Len(s) : s[i] = v})
+ProdExcept(s, v) == SeqProd([i \in 1..Len(s) |-> IF s[i] = v THEN 1 ELSE s[i]])
+\* ATen size inference for view/reshape: one -1 allowed, it needs a non-zero product of the others
+ViewSizeOK(shape, size) ==
+  /\ \A i \in 1..Len(size) : size[i] >= -1
+  /\ Count(size, -1) <= 1
+  /\ IF Count(size, -1) = 0 THEN SeqProd(size) = Numel(shape)
+     ELSE LET q == ProdExcept(size, -1) IN q # 0 /\ Numel(shape) % q = 0
+ViewSize(shape, size) == [i \in 1..Len(size) |-> IF size[i] = -1 THEN Numel(shape) \div ProdExcept(size, -1) ELSE size[i]]
+\* expand: trailing-aligned; -1 keeps the existing dim (not allowed for new leading dims)
+ExpandOK(shape, size) ==
+  LET off == Len(size) - Len(shape) IN
+  /\ off >= 0
+  /\ \A i \in 1..Len(size) : IF i <= off THEN size[i] >= 0
+                              ELSE size[i] = -1 \/ size[i] = shape[i - off] \/ (shape[i - off] = 1 /\ size[i] >= 0)
+ExpandSize(shape, size) == LET off == Len(size) - Len(shape) IN [i \in 1..Len(size) |-> IF size[i] = -1 THEN shape[i - off] ELSE size[i]]
+FlattenShape(shape, s0, e0) ==
+  LET r == Len(shape) IN
+  IF r = 0 THEN <<1>>
+  ELSE LET s == NormDim(s0, r) e == NormDim(e0, r) IN
+       SubSeq(shape, 1, s) \o <<SeqProd(SubSeq(shape, s + 1, e + 1))>> \o SubSeq(shape, e + 2, r)
+SwapPerm(r, d0, d1) == [i \in 1..r |-> IF i - 1 = d0 THEN d1 ELSE IF i - 1 = d1 THEN d0 ELSE i - 1]
+ViewDom(o, a) ==
+  LET self == TOf(P(a, 1)) r == Rank(self) sh == self.shape IN
+  /\ AllowedAt(o, 1, self.dt)
+  /\ CASE IsReshape(o) -> ViewSizeOK(sh, P(a, 2).data)
+       [] IsExpand(o) -> ExpandOK(sh, P(a, 2).data)
+       [] o \in {"aten::expand_as"} -> ExpandOK(sh, P(a, 2).shape)
+       [] o \in {"aten::view_as"} -> Numel(sh) = Numel(P(a, 2).shape)
+       [] o = "aten::permute" -> LET d == P(a, 2).data IN Len(d) = r /\ (\A i \in 1..r : d[i] \in DimsOf(r)) /\ {NormDim(d[i], r) : i \in 1..r} = 0..(r - 1)
+       [] o = "aten::squeeze" -> TRUE
+       [] o = "aten::squeeze.dim" -> DimOK(P(a, 2).v, r)
+       [] o = "aten::unsqueeze" -> P(a, 2).v \in (-(r + 1))..r
+       [] o = "aten::flatten.using_ints" ->
+            LET s0 == IntOr(P(a, 2), 0) e0 == IntOr(P(a, 3), -1) IN DimOK(s0, r) /\ DimOK(e0, r) /\ ND(s0, r) <= ND(e0, r)
+       [] o = "aten::transpose.int" -> DimOK(P(a, 2).v, r) /\ DimOK(P(a, 3).v, r)
+       [] o = "aten::t" -> r <= 2
+       [] o = "aten::unflatten.int" ->
+            /\ r >= 1 /\ P(a, 2).v \in DimsOf(r)
+            /\ ViewSizeOK(<<sh[NormDim(P(a, 2).v, r) + 1]>>, P(a, 3).data) /\ Len(P(a, 3).data) >= 1
+ViewAten(o, a) ==
+  LET self == TOf(P(a, 1)) r == Rank(self) sh == self.shape dt == self.dt IN
+  CASE IsReshape(o) -> One(T(dt, ViewSize(sh, P(a, 2).data), self.data))
+    [] IsExpand(o) -> One(BroadcastTo(self, ExpandSize(sh, P(a, 2).data)))
+    [] o = "aten::expand_as" -> One(BroadcastTo(self, P(a, 2).shape))
+    [] o = "aten::view_as" -> One(T(dt, P(a, 2).shape, self.data))
+    [] o = "aten::permute" -> One(Transpose(self, [i \in 1..r |-> NormDim(P(a, 2).data[i], r)]))
+    [] o = "aten::squeeze" -> One(SqueezeAll(self))
+    [] o = "aten::squeeze.dim" -> One(IF r = 0 \/ sh[ND(P(a, 2).v, r) + 1] # 1 THEN self ELSE T(dt, RemoveAt(sh, ND(P(a, 2).v, r) + 1), self.data))
+    [] o = "aten::unsqueeze" -> LET d == IF P(a, 2).v < 0 THEN P(a, 2).v + r + 1 ELSE P(a, 2).v IN One(T(dt, InsertAt(sh, d + 1, 1), self.data))
+    [] o = "aten::flatten.using_ints" -> One(T(dt, FlattenShape(sh, IntOr(P(a, 2), 0), IntOr(P(a, 3), -1)), self.data))
+    [] o = "aten::transpose.int" -> One(IF r = 0 THEN self ELSE Transpose(self, SwapPerm(r, ND(P(a, 2).v, r), ND(P(a, 3).v, r))))
+    [] o = "aten::t" -> One(IF r = 2 THEN Transpose(self, <<1, 0>>) ELSE self)
+    [] o = "aten::unflatten.int" ->
+         LET d == NormDim(P(a, 2).v, r) IN
+         One(T(dt, SubSeq(sh, 1, d) \o ViewSize(<<sh[d + 1]>>, P(a, 3).data) \o SubSeq(sh, d + 2, r), self.data))
+SizeMenu == {<<>>, <<-1>>, <<0>>, <<1>>, <<2>>, <<3>>, <<6>>, <<8>>, <<1, 1>>, <<1, 3>>, <<3, 1>>, <<-1, 1>>, <<2, 3>>, <<3, 2>>, <<3, -1>>, <<-1, 2>>,
+             <<0, 2>>, <<2, 0>>, <<3, 0>>, <<0, 1>>, <<1, 6, 1>>, <<2, -1, 1>>, <<2, 4>>, <<4, -1>>, <<2, 2, 2>>, <<1, 0, 2>>, <<0, 3, 0>>, <<-1, 0>>}
+ExpandMenu(sh) == {tg \in Shapes \cup {<<2, 2, 3>>, <<3, 3>>, <<2, 3, 3>>, <<0, 3>>, <<2, 0, 3>>} : ExpandOK(sh, tg)}
+KeepVariants(sh, tg) == {tg} \cup (IF Len(sh) >= 1 THEN {[i \in 1..Len(tg) |-> IF i = Len(tg) THEN -1 ELSE tg[i]],
+                                                         [i \in 1..Len(tg) |-> IF i > Len(tg) - Len(sh) THEN -1 ELSE tg[i]]} ELSE {})
+Perms(r) == CASE r = 0 -> {<<>>} [] r = 1 -> {<<0>>, <<-1>>} [] r = 2 -> {<<0, 1>>, <<1, 0>>, <<-1, 0>>, <<-1, -2>>}
+              [] r = 3 -> {<<0, 1, 2>>, <<2, 0, 1>>, <<1, 2, 0>>, <<2, 1, 0>>, <<0, -1, 1>>, <<-1, -3, -2>>}
+              [] OTHER -> {<<0, 1, 2, 3>>, <<3, 2, 1, 0>>, <<0, 2, 1, 3>>, <<-1, 0, -2, 1>>}
+ViewDts == IF Wide THEN AllDts ELSE {"i64", "f32", "bool"}
+ViewMenu(o) ==
+  UNION {
+    LET r == Len(sh) x == TA(Mk(dt, sh, 1)) dd == IF r = 0 THEN {0, -1} ELSE DimsOf(r) IN
+    CASE IsReshape(o) -> {<<x, LA(sz)>> : sz \in SizeMenu}
+      [] IsExpand(o) -> UNION {{<<x, LA(sz)>> : sz \in KeepVariants(sh, tg)} : tg \in ExpandMenu(sh)}
+                         \cup (IF o = "aten::expand" /\ r = 1 THEN {<<x, LA(<<2, -1>>), KW("implicit", BA(FALSE))>>} ELSE {})
+      [] o = "aten::expand_as" -> {<<x, TA(Mk(dt, tg, 2))>> : tg \in ExpandMenu(sh)}
+      [] o = "aten::view_as" -> {<<x, TA(Mk(dt, tg, 2))>> : tg \in {t \in Shapes : Numel(t) = Numel(sh)}}
+      [] o = "aten::permute" -> {<<x, LA(p)>> : p \in Perms(r)}
+      [] o \in {"aten::squeeze", "aten::t"} -> {<<x>>}
+      [] o = "aten::squeeze.dim" -> {<<x, IA(d)>> : d \in dd}
+      [] o = "aten::unsqueeze" -> {<<x, IA(d)>> : d \in (-(r + 1))..r}
+      [] o = "aten::flatten.using_ints" -> {<<x>>, <<x, IA(1)>>} \cup {<<x, IA(s), IA(e)>> : s \in dd, e \in dd}
+      [] o = "aten::transpose.int" -> {<<x, IA(d0), IA(d1)>> : d0 \in dd, d1 \in dd}
+      [] o = "aten::unflatten.int" -> {<<x, IA(d), LA(sz)>> : d \in dd, sz \in {<<-1>>, <<1, -1>>, <<3, 1>>, <<1, 2>>, <<2, -1>>, <<0, 2>>, <<2>>, <<3>>}}
+    : dt \in ViewDts, sh \in Shapes}
+
+-----------------------------------------------------------------------------
+(* ===== family "index": cat / stack / split / chunk / slice / select / narrow / index_select / gather / scatter /  *)
+(*                      tril / triu / flip / roll / repeat / tile / constant_pad_nd                                *)
+IdxOps == {"aten::cat", "aten::stack", "aten::split.Tensor", "aten::chunk", "aten::split_with_sizes", "aten::unbind.int",
+           "aten::slice.Tensor", "aten::select.int", "aten::narrow", "aten::index_select", "aten::gather",
+           "aten::scatter.src", "aten::scatter.value", "aten::scatter_add", "aten::tril", "aten::triu", "aten::flip", "aten::roll",
+           "aten::repeat", "aten::tile", "aten::constant_pad_nd"}
+\* pieces of `t` along axis ax (0-based) with the given sizes
+SplitBy(t, ax, sizes) ==
+  [j \in 1..Len(sizes) |->
+     LET off == SeqSum(SubSeq(sizes, 1, j - 1)) IN
+     ApplyPlan(t, [i \in 1..Rank(t) |-> IF i = ax + 1 THEN <<off, 1, sizes[j]>> ELSE <<0, 1, t.shape[i]>>])]
+ChunkSizes(n, ss) == IF n = 0 THEN <<0>> ELSE [j \in 1..CeilDiv(n, ss) |-> Min2(ss, n - (j - 1) * ss)]
+SelectAt(t, ax, i) ==      \* t[..., i, ...] with the axis removed
+  LET s == ApplyPlan(t, [k \in 1..Rank(t) |-> IF k = ax + 1 THEN <<i, 1, 1>> ELSE <<0, 1, t.shape[k]>>])
+  IN T(t.dt, RemoveAt(t.shape, ax + 1), s.data)
+\* legacy rule of cat: 1-D tensors with zero elements are skipped
+CatKept(ts) == SelectSeq(ts, LAMBDA t : t.shape # <<0>>)
+TrilV(t, diag, upper) ==
+  LET r == Rank(t) IN
+  FromFn(t.dt, t.shape, LAMBDA idx : LET i == idx[r - 1] j == idx[r] IN
+                                      IF (IF upper THEN j - i >= diag ELSE j - i <= diag) THEN At(t, idx) ELSE 0)
+FlipT(t, axes) == FromFn(t.dt, t.shape, LAMBDA idx : At(t, [i \in 1..Rank(t) |-> IF (i - 1) \in axes THEN t.shape[i] - 1 - idx[i] ELSE idx[i]]))
+RollAx(t, ax, sh) == FromFn(t.dt, t.shape, LAMBDA idx : At(t, [idx EXCEPT ![ax + 1] = (@ - sh) % t.shape[ax + 1]]))
+RECURSIVE RollSeq(_, _, _)
+RollSeq(t, shifts, dims) == IF shifts = <<>> THEN t ELSE RollSeq(RollAx(t, Head(dims), Head(shifts)), Tail(shifts), Tail(dims))
+TileT(t, reps) ==          \* Len(reps) = Rank(t)
+  LET oshape == [i \in 1..Rank(t) |-> t.shape[i] * reps[i]] IN
+  FromFn(t.dt, oshape, LAMBDA idx : At(t, [i \in 1..Rank(t) |-> idx[i] % t.shape[i]]))
+PadOnes(shape, n) == [i \in 1..n |-> 1] \o shape
+\* constant_pad_nd: pad = (last_begin, last_end, prev_begin, prev_end, ...); negative pads crop
+PadBegin(pad, r, i) == LET k == r - i IN IF 2 * k + 1 <= Len(pad) THEN pad[2 * k + 1] ELSE 0      \* i: 1-based axis
+PadEnd(pad, r, i) == LET k == r - i IN IF 2 * k + 2 <= Len(pad) THEN pad[2 * k + 2] ELSE 0
+PadT(t, pad, v) ==
+  LET r == Rank(t)
+      oshape == [i \in 1..r |-> t.shape[i] + PadBegin(pad, r, i) + PadEnd(pad, r, i)]
+  IN FromFn(t.dt, oshape, LAMBDA idx : LET src == [i \in 1..r |-> idx[i] - PadBegin(pad, r, i)] IN
+                                        IF \A i \in 1..r : src[i] >= 0 /\ src[i] < t.shape[i] THEN At(t, src) ELSE v)
+GatherEl(t, ax, ind) == FromFn(t.dt, ind.shape, LAMBDA idx : At(t, [idx EXCEPT ![ax + 1] = At(ind, idx)]))
+\* scatter along ax: out[..ind[idx]..] = src[idx] (reduce: "none" last writer in row-major order / "add")
+ScatterEl(t, ax, ind, src, add) ==
+  FromFn(t.dt, t.shape, LAMBDA o :
+     LET hits == {l \in 0..(Numel(ind.shape) - 1) : LET idx == Unravel(l, ind.shape) IN [idx EXCEPT ![ax + 1] = At(ind, idx)] = o}
+     IN IF hits = {} THEN At(t, o)
+        ELSE IF add THEN At(t, o) + SeqSum([k \in 1..Cardinality(hits) |->
+                            LET l == CHOOSE l \in hits : Cardinality({m \in hits : m < l}) = k - 1 IN At(src, Unravel(l, ind.shape))])
+        ELSE LET l == CHOOSE l \in hits : \A m \in hits : m <= l IN At(src, Unravel(l, ind.shape)))
+InRange(t, n) == \A k \in 1..Len(t.data) : t.data[k] >= 0 /\ t.data[k] < n
+IdxDom(o, a) ==
+  IF o \in {"aten::cat", "aten::stack"} THEN
+     LET ts == TList(a, 1) d == IntOr(AfterTL(a, 1, 1), 0) kept == CatKept(ts) IN
+     /\ Len(ts) >= 1 /\ \A i \in 1..Len(ts) : ts[i].dt = ts[1].dt /\ AllowedAt(o, 1, ts[i].dt)
+     /\ IF o = "aten::stack" THEN /\ \A i \in 1..Len(ts) : ts[i].shape = ts[1].shape
+                                  /\ d \in (-(Rank(ts[1]) + 1))..Rank(ts[1])
+        ELSE IF kept = <<>> THEN d \in {0, -1}
+        ELSE LET r == Rank(kept[1]) IN
+             /\ r >= 1 /\ d \in DimsOf(r)
+             /\ \A i \in 1..Len(kept) : /\ Rank(kept[i]) = r
+                                        /\ \A j \in 1..r : j # NormDim(d, r) + 1 => kept[i].shape[j] = kept[1].shape[j]
+  ELSE
+  LET self == TOf(P(a, 1)) r == Rank(self) sh == self.shape dt == self.dt IN
+  /\ AllowedAt(o, 1, dt)
+  /\ CASE o = "aten::split.Tensor" -> LET d == IntOr(P(a, 3), 0) IN
+            r >= 1 /\ d \in DimsOf(r) /\ P(a, 2).v >= 1
+       [] o = "aten::chunk" -> LET d == IntOr(P(a, 3), 0) IN r >= 1 /\ d \in DimsOf(r) /\ P(a, 2).v >= 1
+       [] o = "aten::split_with_sizes" -> LET d == IntOr(P(a, 3), 0) IN
+            r >= 1 /\ d \in DimsOf(r) /\ AllGE0(T("i64", <<>>, P(a, 2).data)) /\ SeqSum(P(a, 2).data) = sh[NormDim(d, r) + 1]
+       [] o = "aten::unbind.int" -> LET d == IntOr(P(a, 2), 0) IN r >= 1 /\ d \in DimsOf(r) /\ sh[NormDim(d, r) + 1] >= 1
+       [] o = "aten::slice.Tensor" -> LET d == IntOr(P(a, 2), 0) IN r >= 1 /\ d \in DimsOf(r) /\ IntOr(P(a, 5), 1) >= 1
+       [] o = "aten::select.int" -> r >= 1 /\ P(a, 2).v \in DimsOf(r)
+                                    /\ LET n == sh[NormDim(P(a, 2).v, r) + 1] IN P(a, 3).v >= -n /\ P(a, 3).v < n
+       [] o = "aten::narrow" -> r >= 1 /\ P(a, 2).v \in DimsOf(r)
+                                /\ LET n == sh[NormDim(P(a, 2).v, r) + 1] st == P(a, 3).v ln == P(a, 4).v
+                                       st2 == IF st < 0 THEN st + n ELSE st
+                                   IN st >= -n /\ st <= n /\ ln >= 0 /\ st2 + ln <= n
+       [] o = "aten::index_select" -> LET ind == TOf(P(a, 3)) IN
+            /\ DimOK(P(a, 2).v, r) /\ Rank(ind) <= 1 /\ ind.dt \in {"i64", "i32"}
+            /\ IF r = 0 THEN Numel(ind.shape) = 1 /\ InRange(ind, 1) ELSE InRange(ind, sh[NormDim(P(a, 2).v, r) + 1])
+       [] o = "aten::gather" -> LET ind == TOf(P(a, 3)) IN
+            /\ r >= 1 /\ P(a, 2).v \in DimsOf(r) /\ Rank(ind) = r /\ ind.dt = "i64"
+            /\ \A i \in 1..r : i # NormDim(P(a, 2).v, r) + 1 => ind.shape[i] <= sh[i]
+            /\ InRange(ind, sh[NormDim(P(a, 2).v, r) + 1])
+       [] o \in {"aten::scatter.src", "aten::scatter_add", "aten::scatter.value"} ->
+            LET ind == TOf(P(a, 3)) v == P(a, 4) ax == NormDim(P(a, 2).v, r) IN
+            /\ r >= 1 /\ P(a, 2).v \in DimsOf(r) /\ Rank(ind) = r /\ ind.dt = "i64"
+            /\ \A i \in 1..r : i # ax + 1 => ind.shape[i] <= sh[i]
+            /\ InRange(ind, sh[ax + 1])
+            /\ v.k = "t" => (v.s = dt /\ Len(v.shape) = r /\ \A i \in 1..r : ind.shape[i] <= v.shape[i])
+            /\ IsNum(v) => (NumCat(v) <= Cat(dt) /\ (dt = "u8" => v.v >= 0) /\ (dt = "bool" => v.k = "b"))
+            /\ o = "aten::scatter_add" => dt # "bool"
+            \* without a reduction the result is only defined when no output element is written twice
+            /\ o # "aten::scatter_add" =>
+                 \A l1, l2 \in 0..(Numel(ind.shape) - 1) : l1 # l2 =>
+                    LET i1 == Unravel(l1, ind.shape) i2 == Unravel(l2, ind.shape)
+                    IN [i1 EXCEPT ![ax + 1] = At(ind, i1)] # [i2 EXCEPT ![ax + 1] = At(ind, i2)]
+       [] o \in {"aten::tril", "aten::triu"} -> r >= 2
+       [] o = "aten::flip" -> LET d == P(a, 2).data IN
+            /\ \A i \in 1..Len(d) : DimOK(d[i], r)
+            /\ Cardinality({ND(d[i], r) : i \in 1..Len(d)}) = Len(d)
+       [] o = "aten::roll" -> LET s == P(a, 2).data d == IF Given(P(a, 3)) THEN P(a, 3).data ELSE <<>> IN
+            /\ Len(s) >= 1
+            /\ IF d = <<>> THEN Len(s) = 1 ELSE r >= 1 /\ Len(s) = Len(d) /\ \A i \in 1..Len(d) : DimOK(d[i], r)
+       [] o = "aten::repeat" -> Len(P(a, 2).data) >= r /\ AllGE0(T("i64", <<>>, P(a, 2).data))
+       [] o = "aten::tile" -> AllGE0(T("i64", <<>>, P(a, 2).data))
+       [] o = "aten::constant_pad_nd" -> LET pad == P(a, 2).data v == P(a, 3) IN
+            /\ Len(pad) % 2 = 0 /\ Len(pad) <= 2 * r
+            /\ \A i \in 1..r : /\ sh[i] + PadBegin(pad, r, i) + PadEnd(pad, r, i) >= 0
+                               /\ sh[i] + Min2(PadBegin(pad, r, i), 0) >= 0 /\ sh[i] + Min2(PadBegin(pad, r, i), 0) + Min2(PadEnd(pad, r, i), 0) >= 0
+            /\ IsNum(v) => (NumCat(v) <= Cat(dt) /\ (dt = "u8" => v.v >= 0) /\ (dt = "bool" => v.k = "b"))
+IdxAten(o, a) ==
+  IF o = "aten::cat" THEN
+     LET ts == TList(a, 1) d == IntOr(AfterTL(a, 1, 1), 0) kept == CatKept(ts) IN
+     IF kept = <<>> THEN One(ts[1]) ELSE One(Concat(kept, d))
+  ELSE IF o = "aten::stack" THEN
+     LET ts == TList(a, 1) d == IntOr(AfterTL(a, 1, 1), 0) r == Rank(ts[1]) d2 == IF d < 0 THEN d + r + 1 ELSE d IN
+     One(Concat([i \in 1..Len(ts) |-> T(ts[i].dt, InsertAt(ts[i].shape, d2 + 1, 1), ts[i].data)], d2))
+  ELSE
+  LET self == TOf(P(a, 1)) r == Rank(self) sh == self.shape dt == self.dt IN
+  CASE o = "aten::split.Tensor" -> LET ax == NormDim(IntOr(P(a, 3), 0), r) IN Lst(SplitBy(self, ax, ChunkSizes(sh[ax + 1], P(a, 2).v)))
+    [] o = "aten::chunk" -> LET ax == NormDim(IntOr(P(a, 3), 0), r) n == sh[ax + 1] c == P(a, 2).v IN
+         Lst(SplitBy(self, ax, IF n = 0 THEN [j \in 1..c |-> 0] ELSE ChunkSizes(n, CeilDiv(n, c))))
+    [] o = "aten::split_with_sizes" -> Lst(SplitBy(self, NormDim(IntOr(P(a, 3), 0), r), P(a, 2).data))
+    [] o = "aten::unbind.int" -> LET ax == NormDim(IntOr(P(a, 2), 0), r) IN Lst([j \in 1..sh[ax + 1] |-> SelectAt(self, ax, j - 1)])
+    [] o = "aten::slice.Tensor" ->
+         LET ax == NormDim(IntOr(P(a, 2), 0), r)
+             s == IF Given(P(a, 3)) THEN P(a, 3).v ELSE NONE  e == IF Given(P(a, 4)) THEN P(a, 4).v ELSE NONE
+         IN One(ApplyPlan(self, [i \in 1..r |-> IF i = ax + 1 THEN NpPlanAxis(sh[i], s, e, IntOr(P(a, 5), 1)) ELSE <<0, 1, sh[i]>>]))
+    [] o = "aten::select.int" -> LET ax == NormDim(P(a, 2).v, r) n == sh[ax + 1] IN One(SelectAt(self, ax, IF P(a, 3).v < 0 THEN P(a, 3).v + n ELSE P(a, 3).v))
+    [] o = "aten::narrow" -> LET ax == NormDim(P(a, 2).v, r) n == sh[ax + 1] st == IF P(a, 3).v < 0 THEN P(a, 3).v + n ELSE P(a, 3).v IN
+         One(ApplyPlan(self, [i \in 1..r |-> IF i = ax + 1 THEN <<st, 1, P(a, 4).v>> ELSE <<0, 1, sh[i]>>]))
+    [] o = "aten::index_select" -> LET ind == TOf(P(a, 3)) IN
+         IF r = 0 THEN One(self)
+         ELSE One(Gather(self, T("i64", <<Numel(ind.shape)>>, ind.data), NormDim(P(a, 2).v, r)))
+    [] o = "aten::gather" -> One(GatherEl(self, NormDim(P(a, 2).v, r), TOf(P(a, 3))))
+    [] o \in {"aten::scatter.src", "aten::scatter_add"} -> One(CastT(ScatterEl(self, NormDim(P(a, 2).v, r), TOf(P(a, 3)), TOf(P(a, 4)), o = "aten::scatter_add"), dt))
+    [] o = "aten::scatter.value" -> LET ind == TOf(P(a, 3)) IN
+         One(ScatterEl(self, NormDim(P(a, 2).v, r), ind, T(dt, ind.shape, [k \in 1..Numel(ind.shape) |-> Wrap(dt, P(a, 4).v)]), FALSE))
+    [] o = "aten::tril" -> One(TrilV(self, IntOr(P(a, 2), 0), FALSE))
+    [] o = "aten::triu" -> One(TrilV(self, IntOr(P(a, 2), 0), TRUE))
+    [] o = "aten::flip" -> One(IF r = 0 THEN self ELSE FlipT(self, {ND(P(a, 2).data[i], r) : i \in 1..Len(P(a, 2).data)}))
+    [] o = "aten::roll" -> LET s == P(a, 2).data d == IF Given(P(a, 3)) THEN P(a, 3).data ELSE <<>> IN
+         IF Numel(sh) = 0 \/ r = 0 THEN One(self)
+         ELSE IF d = <<>> THEN LET flat == RollAx(T(dt, <<Numel(sh)>>, self.data), 0, s[1]) IN One(T(dt, sh, flat.data))
+         ELSE One(RollSeq(self, s, [i \in 1..Len(d) |-> ND(d[i], r)]))
+    [] o = "aten::repeat" -> LET reps == P(a, 2).data n == Len(reps) IN One(TileT(T(dt, PadOnes(sh, n - r), self.data), reps))
+    [] o = "aten::tile" -> LET reps == P(a, 2).data n == Max2(Len(reps), r) IN
+         One(TileT(T(dt, PadOnes(sh, n - r), self.data), PadOnes(reps, n - Len(reps))))
+    [] o = "aten::constant_pad_nd" -> One(PadT(self, P(a, 2).data, Wrap(dt, IntOr(P(a, 3), 0))))
+IdxDts == IF Wide THEN AllDts ELSE {"i64", "f32", "bool"}
+IdxShapes == Shapes \ {<<>>}
+SameButAxis(sh, ax, n) == [sh EXCEPT ![ax + 1] = n]
+IndexFor(sh, ax, p) ==      \* an int64 index tensor of shape sh whose entries are valid positions < n (n >= 1)
+  LET n == p IN T("i64", sh, [k \in 1..Numel(sh) |-> (k * 2 + 1) % n])
+IdxMenu(o) ==
+  UNION {
+    LET r == Len(sh) x == TA(Mk(dt, sh, 1)) dd == IF r = 0 THEN {0, -1} ELSE DimsOf(r) IN
+    CASE o = "aten::cat" ->
+           (IF r = 0 THEN {}
+            ELSE UNION {UNION {{<<TL(1), x>> \o d, <<TL(2), x, TA(Mk(dt, SameButAxis(sh, NormDim(ax, r), 1), 2))>> \o d,
+                         <<TL(3), x, TA(Mk(dt, SameButAxis(sh, NormDim(ax, r), 0), 2)), TA(Mk(dt, sh, 2))>> \o d,
+                         <<TL(3), TA(Mk(dt, <<0>>, 1)), x, TA(Mk(dt, sh, 2))>> \o d,
+                         <<TL(2), x, TA(Mk(dt, <<0>>, 1))>> \o d}
+                        : d \in {<<IA(ax)>>} \cup (IF ax = 0 THEN {<<>>} ELSE {})} : ax \in dd})
+           \cup {<<TL(2), TA(Mk(dt, <<0>>, 1)), TA(Mk(dt, <<0>>, 1))>>}
+      [] o = "aten::stack" ->
+           UNION {{<<TL(1), x>> \o d, <<TL(2), x, TA(Mk(dt, sh, 2))>> \o d, <<TL(3), x, TA(Mk(dt, sh, 2)), x>> \o d}
+                  : d \in {<<IA(dv)>> : dv \in (-(r + 1))..r} \cup {<<>>}}
+      [] o = "aten::split.Tensor" -> {<<x, IA(ss)>> \o d : ss \in {1, 2, 3, 5}, d \in {<<>>} \cup {<<IA(dv)>> : dv \in dd}}
+      [] o = "aten::chunk" -> {<<x, IA(c)>> \o d : c \in {1, 2, 3, 4}, d \in {<<>>} \cup {<<IA(dv)>> : dv \in dd}}
+      [] o = "aten::split_with_sizes" -> {<<x, LA(sz)>> \o d : sz \in {<<0>>, <<1>>, <<2>>, <<3>>, <<1, 2>>, <<2, 0, 1>>, <<1, 1>>, <<0, 0>>, <<1, 0, 1, 1>>},
+                                                             d \in {<<>>} \cup {<<IA(dv)>> : dv \in dd}}
+      [] o = "aten::unbind.int" -> {<<x>> \o d : d \in {<<>>} \cup {<<IA(dv)>> : dv \in dd}}
+      [] o = "aten::slice.Tensor" ->
+           {<<x>>, <<x, IA(0), IA(1)>>, <<x, IA(0), NA, IA(2)>>}
+           \cup {<<x, IA(dv), s, e>> \o st : dv \in (IF Wide THEN dd ELSE {0, -1}), s \in (IF Wide THEN {NA, IA(0), IA(1), IA(-1), IA(-5), IA(7)} ELSE {NA, IA(1), IA(-1), IA(-5)}), e \in (IF Wide THEN {NA, IA(0), IA(2), IA(-1), IA(9), IA(-7)} ELSE {NA, IA(2), IA(-1), IA(9)}),
+                                             st \in (IF Wide THEN {<<>>, <<IA(2)>>, <<IA(3)>>} ELSE {<<>>, <<IA(2)>>})}
+      [] o = "aten::select.int" -> {<<x, IA(dv), IA(i)>> : dv \in dd, i \in (-3)..2}
+      [] o = "aten::narrow" -> {<<x, IA(dv), IA(st), IA(ln)>> : dv \in dd, st \in (IF Wide THEN (-3)..3 ELSE {-2, -1, 0, 1, 3}), ln \in (IF Wide THEN 0..3 ELSE {0, 1, 2})}
+      [] o = "aten::index_select" ->
+           {<<x, IA(dv), TA(ind)>> : dv \in dd, ind \in {Scalar("i64", 0), Vec("i64", <<0>>), Vec("i64", <<1, 0, 1>>), Vec("i32", <<2, 0>>), Vec("i64", <<>>)}}
+      [] o = "aten::gather" ->
+           UNION {{<<x, IA(dv), TA(IndexFor(ish, NormDim(dv, r), Max2(1, sh[NormDim(dv, r) + 1])))>> \o kw
+                   : ish \in {sh, SameButAxis(sh, NormDim(dv, r), 3), SameButAxis(sh, NormDim(dv, r), 0), [i \in 1..r |-> Min2(sh[i], 1)]},
+                     kw \in {<<>>}} : dv \in (IF r = 0 THEN {} ELSE dd)}
+      [] o \in {"aten::scatter.src", "aten::scatter_add"} ->
+           UNION {UNION {{<<x, IA(dv), TA(IndexFor(ish, NormDim(dv, r), Max2(1, sh[NormDim(dv, r) + 1]))), TA(Mk(dt, ssh, 2))>>
+                          : ssh \in {ish}}
+                   : ish \in {sh, [i \in 1..r |-> Min2(sh[i], 1)], SameButAxis(sh, NormDim(dv, r), 1), SameButAxis(sh, NormDim(dv, r), 0)}}
+                  : dv \in (IF r = 0 THEN {} ELSE dd)}
+      [] o = "aten::scatter.value" ->
+           UNION {{<<x, IA(dv), TA(IndexFor(ish, NormDim(dv, r), Max2(1, sh[NormDim(dv, r) + 1]))), v>>
+                   : ish \in {sh, [i \in 1..r |-> Min2(sh[i], 1)], SameButAxis(sh, NormDim(dv, r), 1), SameButAxis(sh, NormDim(dv, r), 0)},
+                     v \in ScalarsFor(dt)} : dv \in (IF r = 0 THEN {} ELSE dd)}
+      [] o \in {"aten::tril", "aten::triu"} -> {<<x>>} \cup {<<x, IA(k)>> : k \in {-1, 0, 1, 2, -3}}
+      [] o = "aten::flip" -> {<<x, LA(l)>> : l \in {<<>>} \cup {<<dv>> : dv \in dd} \cup (IF r >= 2 THEN {<<0, -1>>, <<-1, -2>>} ELSE {})}
+      [] o = "aten::roll" -> {<<x, LA(<<s>>)>> : s \in {1, -1, 4, 0}} \cup {<<x, LA(<<s>>), LA(<<dv>>)>> : s \in {1, -2}, dv \in dd}
+                              \cup (IF r >= 2 THEN {<<x, LA(<<1, 2>>), LA(<<0, -1>>)>>, <<x, LA(<<-1, 1>>), LA(<<1, 1>>)>>} ELSE {})
+      [] o = "aten::repeat" -> {<<x, LA(l)>> : l \in {<<>>, <<2>>, <<1>>, <<0>>, <<2, 1>>, <<1, 2>>, <<2, 0>>, <<2, 1, 2>>, <<1, 1, 1>>, <<3, 1, 1, 2>>}}
+      [] o = "aten::tile" -> {<<x, LA(l)>> : l \in {<<>>, <<2>>, <<1>>, <<0>>, <<2, 1>>, <<1, 2>>, <<2, 1, 2>>, <<1, 2, 1, 1>>}}
+      [] o = "aten::constant_pad_nd" ->
+           {<<x, LA(l)>> \o v : l \in {<<>>, <<1, 0>>, <<0, 2>>, <<1, 1>>, <<-1, 0>>, <<0, -1>>, <<1, 0, 0, 1>>, <<-1, 1, 2, 0>>, <<0, 0, 1, 1>>, <<1, 0, 0, 0, 0, 1>>},
+                                v \in (IF Wide THEN {<<>>} \cup {<<s>> : s \in ScalarsFor(dt)} ELSE {<<>>, <<IA(IF dt = "bool" THEN 1 ELSE 2)>>})}
+    : dt \in IdxDts, sh \in (IF o \in {"aten::index_select", "aten::flip", "aten::roll", "aten::repeat", "aten::tile", "aten::constant_pad_nd", "aten::stack"} THEN Shapes ELSE IdxShapes)}
+
+-----------------------------------------------------------------------------
+(* ===== family "create" ===== *)
+CreateOps == {"aten::zeros", "aten::ones", "aten::full", "aten::zeros_like", "aten::ones_like", "aten::full_like",
+              "aten::new_zeros", "aten::new_ones", "aten::new_full", "aten::arange", "aten::arange.start", "aten::arange.start_step",
+              "aten::scalar_tensor"}
+KwDt(a, default) == LET d == Kw(a, "dtype") IN IF Given(d) THEN d.s ELSE default
+Const(dt, shape, v) == T(dt, shape, [k \in 1..Numel(shape) |-> Wrap(dt, v)])
+RangeLen(s, e, st) == IF st > 0 THEN Max2(0, CeilDiv(e - s, st)) ELSE Max2(0, CeilDiv(s - e, -st))
+ArangeArgs(o, a) == CASE o = "aten::arange" -> <<IA(0), P(a, 1), IA(1)>>
+                      [] o = "aten::arange.start" -> <<P(a, 1), P(a, 2), IA(1)>>
+                      [] OTHER -> <<P(a, 1), P(a, 2), IF Given(P(a, 3)) THEN P(a, 3) ELSE IA(1)>>
+CreateDom(o, a) ==
+  CASE o \in {"aten::zeros", "aten::ones"} -> AllGE0(T("i64", <<>>, P(a, 1).data))
+    [] o = "aten::full" -> /\ AllGE0(T("i64", <<>>, P(a, 1).data))
+                           /\ LET dt == KwDt(a, NumDt(P(a, 2))) IN (dt = "u8" => P(a, 2).v >= 0) /\ NumCat(P(a, 2)) <= Cat(dt)
+    [] o \in {"aten::zeros_like", "aten::ones_like"} -> AllowedAt(o, 1, P(a, 1).s)
+    [] o = "aten::full_like" -> /\ AllowedAt(o, 1, P(a, 1).s)
+                                /\ LET dt == KwDt(a, P(a, 1).s) IN (dt = "u8" => P(a, 2).v >= 0) /\ NumCat(P(a, 2)) <= Cat(dt) /\ (dt = "bool" => P(a, 2).k = "b")
+    [] o \in {"aten::new_zeros", "aten::new_ones"} -> AllowedAt(o, 1, P(a, 1).s) /\ AllGE0(T("i64", <<>>, P(a, 2).data))
+    [] o = "aten::new_full" -> /\ AllowedAt(o, 1, P(a, 1).s) /\ AllGE0(T("i64", <<>>, P(a, 2).data))
+                               /\ LET dt == KwDt(a, P(a, 1).s) IN (dt = "u8" => P(a, 3).v >= 0) /\ NumCat(P(a, 3)) <= Cat(dt) /\ (dt = "bool" => P(a, 3).k = "b")
+    [] o \in {"aten::arange", "aten::arange.start", "aten::arange.start_step"} ->
+         LET q == ArangeArgs(o, a) dflt == IF \E i \in 1..3 : q[i].k = "f" THEN "f32" ELSE "i64" dt == KwDt(a, dflt) IN
+         /\ q[3].v # 0 /\ \A i \in 1..3 : q[i].k \in {"i", "f"}
+         /\ (q[3].v > 0 => q[2].v >= q[1].v) /\ (q[3].v < 0 => q[2].v <= q[1].v)
+         /\ dt # "bool" /\ (dt = "u8" => q[1].v >= 0 /\ q[2].v >= 0 /\ q[3].v > 0)
+         /\ (IsInt(dt) /\ Given(Kw(a, "dtype"))) => \A i \in 1..3 : q[i].k = "i"
+    [] o = "aten::scalar_tensor" -> LET dt == KwDt(a, "f32") IN (dt = "u8" => P(a, 1).v >= 0) /\ NumCat(P(a, 1)) <= Cat(dt) /\ (dt = "bool" => P(a, 1).k = "b")
+CreateAten(o, a) ==
+  CASE o = "aten::zeros" -> One(Const(KwDt(a, "f32"), P(a, 1).data, 0))
+    [] o = "aten::ones" -> One(Const(KwDt(a, "f32"), P(a, 1).data, 1))
+    [] o = "aten::full" -> One(Const(KwDt(a, NumDt(P(a, 2))), P(a, 1).data, P(a, 2).v))
+    [] o = "aten::zeros_like" -> One(Const(KwDt(a, P(a, 1).s), P(a, 1).shape, 0))
+    [] o = "aten::ones_like" -> One(Const(KwDt(a, P(a, 1).s), P(a, 1).shape, 1))
+    [] o = "aten::full_like" -> One(Const(KwDt(a, P(a, 1).s), P(a, 1).shape, P(a, 2).v))
+    [] o = "aten::new_zeros" -> One(Const(KwDt(a, P(a, 1).s), P(a, 2).data, 0))
+    [] o = "aten::new_ones" -> One(Const(KwDt(a, P(a, 1).s), P(a, 2).data, 1))
+    [] o = "aten::new_full" -> One(Const(KwDt(a, P(a, 1).s), P(a, 2).data, P(a, 3).v))
+    [] o = "aten::scalar_tensor" -> One(Scalar(KwDt(a, "f32"), Wrap(KwDt(a, "f32"), P(a, 1).v)))
+    [] OTHER -> LET q == ArangeArgs(o, a) dflt == IF \E i \in 1..3 : q[i].k = "f" THEN "f32" ELSE "i64" dt == KwDt(a, dflt)
+                    n == RangeLen(q[1].v, q[2].v, q[3].v)
+                IN One(T(dt, <<n>>, [k \in 1..n |-> q[1].v + (k - 1) * q[3].v]))
+DtKws == {<<>>, <<KW("dtype", NA)>>} \cup {<<KW("dtype", DA(d))>> : d \in (IF Wide THEN AllDts ELSE {"bool", "i32", "i64", "f16", "f32"})}
+CreateSizes == {<<>>, <<0>>, <<3>>, <<2, 3>>, <<2, 0>>, <<1, 2, 2>>}
+FillVals == {IA(2), IA(-3), FA(2), BA(TRUE), IA(0)}
+CreateMenu(o) ==
+  CASE o \in {"aten::zeros", "aten::ones"} -> {<<LA(sz)>> \o kw : sz \in CreateSizes, kw \in DtKws}
+    [] o = "aten::full" -> {<<LA(sz), v>> \o kw : sz \in CreateSizes, v \in FillVals, kw \in DtKws}
+    [] o \in {"aten::zeros_like", "aten::ones_like"} -> {<<TA(Mk(dt, sh, 1))>> \o kw : dt \in SomeDts, sh \in (IF Wide THEN Shapes ELSE {<<>>, <<0>>, <<2, 3>>}), kw \in DtKws}
+    [] o = "aten::full_like" -> {<<TA(Mk(dt, sh, 1)), v>> \o kw : dt \in SomeDts, sh \in (IF Wide THEN {<<>>, <<0>>, <<3>>, <<2, 3>>, <<2, 1, 3>>} ELSE {<<>>, <<2, 3>>}), v \in FillVals, kw \in DtKws}
+    [] o \in {"aten::new_zeros", "aten::new_ones"} -> {<<TA(Mk(dt, sh, 1)), LA(sz)>> \o kw : dt \in SomeDts, sh \in (IF Wide THEN {<<>>, <<3>>, <<0, 2>>} ELSE {<<3>>}), sz \in (IF Wide THEN CreateSizes ELSE {<<>>, <<0>>, <<2, 3>>}), kw \in DtKws}
+    [] o = "aten::new_full" -> {<<TA(Mk(dt, sh, 1)), LA(sz), v>> \o kw : dt \in SomeDts, sh \in (IF Wide THEN {<<>>, <<2, 3>>} ELSE {<<2, 3>>}), sz \in (IF Wide THEN {<<>>, <<0>>, <<2, 3>>} ELSE {<<>>, <<2, 3>>}), v \in FillVals, kw \in DtKws}
+    [] o = "aten::arange" -> {<<e>> \o kw : e \in {IA(0), IA(4), FA(3), IA(1)}, kw \in DtKws}
+    [] o = "aten::arange.start" -> {<<s, e>> \o kw : s \in {IA(0), IA(-2), FA(1), IA(2)}, e \in {IA(2), IA(4), FA(3)}, kw \in DtKws}
+    [] o = "aten::arange.start_step" -> {<<s, e>> \o st \o kw : s \in {IA(0), IA(-2), FA(1), IA(5)}, e \in {IA(4), FA(3), IA(-1), IA(5)},
+                                                               st \in {<<>>, <<IA(1)>>, <<IA(2)>>, <<IA(-2)>>, <<FA(2)>>}, kw \in DtKws}
+    [] o = "aten::scalar_tensor" -> {<<v>> \o kw : v \in FillVals, kw \in DtKws}
+
+-----------------------------------------------------------------------------
+(* ===== family "matmul": mm / bmm / matmul / mv / dot / addmm / baddbmm / addmv / linear (integer-valued, exact) ===== *)
+MatOps == {"aten::mm", "aten::bmm", "aten::matmul", "aten::mv", "aten::dot", "aten::addmm", "aten::baddbmm", "aten::addmv", "aten::linear"}
+\* 2-D x 2-D
+MM2(x, y) == FromFn(x.dt, <<x.shape[1], y.shape[2]>>, LAMBDA idx : SeqSum([k \in 1..x.shape[2] |-> At(x, <<idx[1], k - 1>>) * At(y, <<k - 1, idx[2]>>)]))
+\* numpy/torch matmul for ranks 1..3: 1-D operands are promoted and the added axis removed again; batch dims broadcast
+MatMulOK(x, y) ==
+  /\ Rank(x) >= 1 /\ Rank(y) >= 1 /\ Rank(x) <= 3 /\ Rank(y) <= 3
+  /\ x.shape[Rank(x)] = (IF Rank(y) = 1 THEN y.shape[1] ELSE y.shape[Rank(y) - 1])
+  /\ (Rank(x) = 3 /\ Rank(y) = 3) => (x.shape[1] = y.shape[1] \/ x.shape[1] = 1 \/ y.shape[1] = 1)
+MatMul(x, y) ==
+  LET x2 == IF Rank(x) = 1 THEN T(x.dt, <<1, x.shape[1]>>, x.data) ELSE x
+      y2 == IF Rank(y) = 1 THEN T(y.dt, <<y.shape[1], 1>>, y.data) ELSE y
+      b == IF Rank(x2) = 3 /\ Rank(y2) = 3 THEN Max2(x2.shape[1], y2.shape[1]) ELSE IF Rank(x2) = 3 THEN x2.shape[1] ELSE IF Rank(y2) = 3 THEN y2.shape[1] ELSE -1
+      m == x2.shape[Rank(x2) - 1] kk == x2.shape[Rank(x2)] n == y2.shape[Rank(y2)]
+      XA(bi, i, k) == IF Rank(x2) = 3 THEN At(x2, <<IF x2.shape[1] = 1 THEN 0 ELSE bi, i, k>>) ELSE At(x2, <<i, k>>)
+      YA(bi, k, j) == IF Rank(y2) = 3 THEN At(y2, <<IF y2.shape[1] = 1 THEN 0 ELSE bi, k, j>>) ELSE At(y2, <<k, j>>)
+      full == IF b = -1 THEN FromFn(x.dt, <<m, n>>, LAMBDA idx : SeqSum([k \in 1..kk |-> XA(0, idx[1], k - 1) * YA(0, k - 1, idx[2])]))
+              ELSE FromFn(x.dt, <<b, m, n>>, LAMBDA idx : SeqSum([k \in 1..kk |-> XA(idx[1], idx[2], k - 1) * YA(idx[1], k - 1, idx[3])]))
+      s1 == IF Rank(x) = 1 THEN RemoveAt(full.shape, Len(full.shape) - 1) ELSE full.shape
+      s2 == IF Rank(y) = 1 THEN RemoveAt(s1, Len(s1)) ELSE s1
+  IN T(x.dt, s2, full.data)
+ScaleT(t, c) == Map1(t, t.dt, LAMBDA v : c * v)
+AddBT(x, y) == Map2(x, y, x.dt, LAMBDA p, q : p + q)
+MatDom(o, a) ==
+  LET x == TOf(P(a, 1)) dt == x.dt
+      same == \A i \in 1..Len(Posn(a)) : P(a, i).k = "t" => P(a, i).s = dt
+      beta == Kw(a, "beta") alpha == Kw(a, "alpha") IN
+  /\ AllowedAt(o, 1, dt) /\ same /\ dt \notin {"bool", "u8"}
+  /\ \A s \in {beta, alpha} : Given(s) => NumCat(s) <= Cat(dt)
+  /\ CASE o = "aten::mm" -> Rank(x) = 2 /\ Len(P(a, 2).shape) = 2 /\ MatMulOK(x, TOf(P(a, 2)))
+       [] o = "aten::bmm" -> Rank(x) = 3 /\ Len(P(a, 2).shape) = 3 /\ x.shape[1] = P(a, 2).shape[1] /\ MatMulOK(x, TOf(P(a, 2)))
+       [] o = "aten::matmul" -> MatMulOK(x, TOf(P(a, 2)))
+       [] o = "aten::mv" -> Rank(x) = 2 /\ Len(P(a, 2).shape) = 1 /\ MatMulOK(x, TOf(P(a, 2)))
+       [] o = "aten::dot" -> Rank(x) = 1 /\ Len(P(a, 2).shape) = 1 /\ x.shape = P(a, 2).shape
+       [] o = "aten::addmm" -> LET m1 == TOf(P(a, 2)) m2 == TOf(P(a, 3)) IN
+            Rank(m1) = 2 /\ Rank(m2) = 2 /\ MatMulOK(m1, m2) /\ BroadcastShape(x.shape, <<m1.shape[1], m2.shape[2]>>) = <<m1.shape[1], m2.shape[2]>>
+       [] o = "aten::baddbmm" -> LET m1 == TOf(P(a, 2)) m2 == TOf(P(a, 3)) IN
+            /\ Rank(m1) = 3 /\ Rank(m2) = 3 /\ m1.shape[1] = m2.shape[1] /\ MatMulOK(m1, m2)
+            /\ BroadcastShape(x.shape, <<m1.shape[1], m1.shape[2], m2.shape[3]>>) = <<m1.shape[1], m1.shape[2], m2.shape[3]>>
+       [] o = "aten::addmv" -> LET m == TOf(P(a, 2)) v == TOf(P(a, 3)) IN
+            Rank(m) = 2 /\ Rank(v) = 1 /\ m.shape[1] > 0 /\ MatMulOK(m, v) /\ BroadcastShape(x.shape, <<m.shape[1]>>) = <<m.shape[1]>>
+       [] o = "aten::linear" -> LET w == TOf(P(a, 2)) b == P(a, 3) IN
+            /\ Rank(x) >= 1 /\ Rank(x) <= 3 /\ Rank(w) \in {1, 2} /\ x.shape[Rank(x)] = w.shape[Rank(w)]
+            /\ Given(b) => (b.k = "t" /\ Rank(w) = 2 /\ b.shape \in {<<w.shape[1]>>})
+MatAten(o, a) ==
+  LET x == TOf(P(a, 1)) beta == IntOr(Kw(a, "beta"), 1) alpha == IntOr(Kw(a, "alpha"), 1) IN
+  CASE o \in {"aten::mm", "aten::bmm", "aten::matmul", "aten::mv", "aten::dot"} -> One(MatMul(x, TOf(P(a, 2))))
+    [] o \in {"aten::addmm", "aten::baddbmm", "aten::addmv"} ->
+         One(AddBT(ScaleT(MatMul(TOf(P(a, 2)), TOf(P(a, 3))), alpha), ScaleT(x, beta)))
+    [] o = "aten::linear" -> LET w == TOf(P(a, 2))
+                                 wt == IF Rank(w) = 2 THEN Transpose(w, <<1, 0>>) ELSE w
+                                 mm == MatMul(x, wt)
+                             IN One(IF Given(P(a, 3)) THEN AddBT(mm, TOf(P(a, 3))) ELSE mm)
+MatDts == IF Wide THEN {"i64", "i32", "f16", "f32", "f64"} ELSE {"i64", "i32", "f32"}
+MatShapes == {<<2>>, <<3>>, <<2, 3>>, <<3, 2>>, <<1, 3>>, <<3, 1>>, <<0, 3>>, <<3, 0>>, <<2, 2, 3>>, <<2, 3, 2>>, <<1, 3, 2>>, <<2, 3, 1>>, <<2, 0, 3>>}
+MatScal == {<<>>, <<KW("beta", IA(2))>>, <<KW("alpha", IA(-1))>>, <<KW("beta", IA(0)), KW("alpha", IA(3))>>}
+MatMenu(o) ==
+  UNION {
+    CASE o \in {"aten::mm", "aten::bmm", "aten::matmul", "aten::mv", "aten::dot"} ->
+           {<<TA(Mk(dt, s1, 1)), TA(Mk(dt, s2, 2))>> : s1 \in MatShapes, s2 \in MatShapes}
+      [] o = "aten::addmm" ->
+           {<<TA(Mk(dt, s0, 2)), TA(Mk(dt, s1, 1)), TA(Mk(dt, s2, 2))>> \o kw
+              : s0 \in {<<>>, <<2>>, <<2, 2>>, <<3, 1>>, <<1, 2>>, <<3, 3>>}, s1 \in {<<2, 3>>, <<3, 2>>, <<0, 3>>, <<3, 0>>}, s2 \in {<<3, 2>>, <<2, 3>>, <<0, 2>>, <<3, 0>>}, kw \in MatScal}
+      [] o = "aten::baddbmm" ->
+           {<<TA(Mk(dt, s0, 2)), TA(Mk(dt, s1, 1)), TA(Mk(dt, s2, 2))>> \o kw
+              : s0 \in {<<>>, <<2>>, <<2, 2, 2>>, <<2, 1>>, <<1, 2, 2>>}, s1 \in {<<2, 2, 3>>, <<1, 2, 3>>}, s2 \in {<<2, 3, 2>>, <<1, 3, 2>>}, kw \in MatScal}
+      [] o = "aten::addmv" ->
+           {<<TA(Mk(dt, s0, 2)), TA(Mk(dt, s1, 1)), TA(Mk(dt, s2, 2))>> \o kw
+              : s0 \in {<<>>, <<2>>, <<1>>, <<3>>}, s1 \in {<<2, 3>>, <<3, 2>>, <<0, 3>>}, s2 \in {<<3>>, <<2>>}, kw \in MatScal}
+      [] o = "aten::linear" ->
+           {<<TA(Mk(dt, s1, 1)), TA(Mk(dt, s2, 2))>> \o b
+              : s1 \in {<<3>>, <<2, 3>>, <<2, 2, 3>>, <<0, 3>>}, s2 \in {<<2, 3>>, <<1, 3>>, <<3>>}, b \in {<<>>, <<NA>>, <<TA(Mk(dt, <<2>>, 1))>>, <<TA(Mk(dt, <<1>>, 1))>>, <<TA(Mk(dt, <<>>, 1))>>}}
+    : dt \in MatDts}
+
+-----------------------------------------------------------------------------
+(* ===== family "nn": float kernels - structure, element type and shape only ===== *)
+NNOps == {"aten::softmax.int", "aten::log_softmax.int", "aten::_softmax", "aten::_log_softmax",
+          "aten::layer_norm", "aten::native_layer_norm", "aten::group_norm", "aten::_native_batch_norm_legit_no_training",
+          "aten::avg_pool2d", "aten::max_pool2d", "aten::conv2d", "aten::hardtanh"}
+FX(v, e) == Arg("fx", "", <<>>, <<e>>, v)        \* the python float v * 10^e
+PoolOut(n, k, s, p, d, ceil) ==
+  LET num == n + 2 * p - d * (k - 1) - 1
+      o1 == (IF ceil THEN CeilDiv(num, s) ELSE FloorDiv(num, s)) + 1
+  IN IF ceil /\ (o1 - 1) * s >= n + p THEN o1 - 1 ELSE o1
+L2(x, i, d) == IF ~Given(x) \/ x.data = <<>> THEN d ELSE IF Len(x.data) = 1 THEN x.data[1] ELSE x.data[i]
+NNDom(o, a) ==
+  LET x == TOf(P(a, 1)) r == Rank(x) dt == x.dt IN
+  /\ AllowedAt(o, 1, dt) /\ IsFloat(dt)
+  /\ CASE o \in {"aten::softmax.int", "aten::log_softmax.int", "aten::_softmax", "aten::_log_softmax"} -> DimOK(P(a, 2).v, r)
+       [] o \in {"aten::layer_norm", "aten::native_layer_norm"} ->
+            LET ns == P(a, 2).data k == Len(ns) IN
+            /\ k >= 1 /\ k <= r /\ SubSeq(x.shape, r - k + 1, r) = ns /\ Numel(x.shape) > 0
+            /\ o = "aten::native_layer_norm" => dt # "f16"      \* mean / rstd of a half input are device dependent (f16 on CPU, f32 on CUDA)
+            /\ \A i \in {3, 4} : P(a, i).k = "t" => (P(a, i).shape = ns /\ P(a, i).s = dt)
+       [] o = "aten::group_norm" -> /\ r >= 2 /\ P(a, 2).v >= 1 /\ x.shape[2] % P(a, 2).v = 0 /\ Numel(x.shape) > 0
+                                    /\ \A i \in {3, 4} : P(a, i).k = "t" => (P(a, i).shape = <<x.shape[2]>> /\ P(a, i).s = dt)
+       [] o = "aten::_native_batch_norm_legit_no_training" ->
+            /\ r >= 2 /\ \A i \in {2, 3} : P(a, i).k = "t" => (P(a, i).shape = <<x.shape[2]>> /\ P(a, i).s = dt)
+            /\ \A i \in {4, 5} : P(a, i).shape = <<x.shape[2]>> /\ P(a, i).s = dt
+       [] o \in {"aten::avg_pool2d", "aten::max_pool2d"} ->
+            LET ks == P(a, 2) st == P(a, 3) pd == P(a, 4) dl == IF o = "aten::max_pool2d" THEN P(a, 5) ELSE Absent
+                cm == BoolOr(P(a, IF o = "aten::max_pool2d" THEN 6 ELSE 5), FALSE) IN
+            /\ r \in {3, 4} /\ x.shape[1] > 0 /\ x.shape[r - 2] > 0
+            /\ \A i \in {1, 2} : LET n == x.shape[r - 2 + i] k == L2(ks, i, 1) s == L2(st, i, k) p == L2(pd, i, 0) d == L2(dl, i, 1) IN
+                   /\ k >= 1 /\ s >= 1 /\ p >= 0 /\ 2 * p <= k /\ d >= 1 /\ n >= 1
+                   /\ PoolOut(n, k, s, p, d, cm) >= 1
+       [] o = "aten::conv2d" ->
+            LET w == TOf(P(a, 2)) b == P(a, 3) st == P(a, 4) pd == P(a, 5) dl == P(a, 6) g == IntOr(P(a, 7), 1) IN
+            /\ r = 4 /\ Rank(w) = 4 /\ w.dt = dt /\ x.shape[1] > 0
+            /\ x.shape[2] = w.shape[2] * g /\ w.shape[1] % g = 0 /\ w.shape[1] > 0 /\ w.shape[2] > 0
+            /\ b.k = "t" => (b.shape = <<w.shape[1]>> /\ b.s = dt)
+            /\ \A i \in {1, 2} : LET n == x.shape[2 + i] k == w.shape[2 + i] IN
+                   k >= 1 /\ L2(st, i, 1) >= 1 /\ L2(pd, i, 0) >= 0 /\ L2(dl, i, 1) >= 1
+                   /\ PoolOut(n, k, L2(st, i, 1), L2(pd, i, 0), L2(dl, i, 1), FALSE) >= 1
+       [] o = "aten::hardtanh" -> TRUE
+NNAten(o, a) ==
+  LET x == TOf(P(a, 1)) r == Rank(x) dt == x.dt sh == x.shape IN
+  CASE o \in {"aten::softmax.int", "aten::log_softmax.int"} -> Struct(IF Given(P(a, 3)) /\ P(a, 3).k = "dt" THEN P(a, 3).s ELSE dt, sh)
+    [] o \in {"aten::_softmax", "aten::_log_softmax", "aten::layer_norm", "aten::group_norm", "aten::hardtanh"} -> Struct(dt, sh)
+    [] o = "aten::native_layer_norm" ->
+         LET k == Len(P(a, 2).data) st == [i \in 1..r |-> IF i > r - k THEN 1 ELSE sh[i]]
+             sdt == dt IN
+         TupStruct(<<T(dt, sh, <<>>), T(sdt, st, <<>>), T(sdt, st, <<>>)>>)
+    \* save_mean / save_invstd of the inference form are device dependent (empty on CPU, [C] on CUDA): only the first output is constrained
+    [] o = "aten::_native_batch_norm_legit_no_training" -> [st |-> "first", ts |-> <<T(dt, sh, <<>>)>>, vals |-> FALSE]
+    [] o \in {"aten::avg_pool2d", "aten::max_pool2d"} ->
+         LET ks == P(a, 2) st == P(a, 3) pd == P(a, 4) dl == IF o = "aten::max_pool2d" THEN P(a, 5) ELSE Absent
+             cm == BoolOr(P(a, IF o = "aten::max_pool2d" THEN 6 ELSE 5), FALSE)
+             O(i) == LET k == L2(ks, i, 1) IN PoolOut(sh[r - 2 + i], k, L2(st, i, k), L2(pd, i, 0), L2(dl, i, 1), cm)
+         IN Struct(dt, SubSeq(sh, 1, r - 2) \o <<O(1), O(2)>>)
+    [] o = "aten::conv2d" ->
+         LET w == TOf(P(a, 2)) O(i) == PoolOut(sh[2 + i], w.shape[2 + i], L2(P(a, 4), i, 1), L2(P(a, 5), i, 0), L2(P(a, 6), i, 1), FALSE)
+         IN Struct(dt, <<sh[1], w.shape[1], O(1), O(2)>>)
+NNDts == IF Wide THEN FloatDts ELSE {"f32", "f16"}
+OptT(dt, sh) == {NA, TA(Mk(dt, sh, 3))}
+LastK(sh, k) == SubSeq(sh, Max2(1, Len(sh) - k + 1), Len(sh))
+NNMenu(o) ==
+  UNION {
+    CASE o \in {"aten::softmax.int", "aten::log_softmax.int"} ->
+           UNION {{<<TA(Mk(dt, sh, 1)), IA(d)>> \o kw : d \in (IF sh = <<>> THEN {0, -1} ELSE DimsOf(Len(sh))),
+                    kw \in {<<>>, <<DA("f32")>>, <<DA("f64")>>}} : sh \in RedShapes}
+      [] o \in {"aten::_softmax", "aten::_log_softmax"} ->
+           UNION {{<<TA(Mk(dt, sh, 1)), IA(d), BA(FALSE)>> : d \in (IF sh = <<>> THEN {0, -1} ELSE DimsOf(Len(sh)))} : sh \in RedShapes}
+      [] o = "aten::hardtanh" -> {<<TA(Mk(dt, sh, 1))>> \o b : sh \in RedShapes, b \in {<<>>, <<FA(-2), FA(1)>>, <<IA(0), IA(2)>>}}
+      [] o = "aten::layer_norm" ->
+           UNION {{<<TA(Mk(dt, sh, 1)), LA(LastK(sh, k))>> \o wb
+                   : wb \in {<<>>} \cup {<<w, b>> : w \in OptT(dt, LastK(sh, k)), b \in OptT(dt, LastK(sh, k))}}
+                  : sh \in {<<3>>, <<2, 3>>, <<2, 1, 3>>, <<2, 2, 2>>}, k \in {1, 2}}
+      [] o = "aten::native_layer_norm" ->
+           UNION {{<<TA(Mk(dt, sh, 1)), LA(LastK(sh, k)), w, b, FX(1, -5)>>
+                   : w \in OptT(dt, LastK(sh, k)), b \in OptT(dt, LastK(sh, k))}
+                  : sh \in {<<3>>, <<2, 3>>, <<2, 1, 3>>, <<2, 2, 2>>}, k \in {1, 2}}
+      [] o = "aten::group_norm" ->
+           UNION {{<<TA(Mk(dt, sh, 1)), IA(g)>> \o wb : g \in {1, 2}, wb \in {<<>>} \cup {<<w, b>> : w \in OptT(dt, <<sh[2]>>), b \in OptT(dt, <<sh[2]>>)}}
+                  : sh \in {<<2, 2, 2>>, <<1, 2, 3>>, <<2, 4, 2>>, <<1, 2, 2, 2>>}}
+      [] o = "aten::_native_batch_norm_legit_no_training" ->
+           UNION {{<<TA(Mk(dt, sh, 1)), w, b, TA(Mk(dt, <<sh[2]>>, 1)), TA(Mk(dt, <<sh[2]>>, 3)), FX(1, -1), FX(1, -5)>>
+                   : w \in OptT(dt, <<sh[2]>>), b \in OptT(dt, <<sh[2]>>)} : sh \in {<<2, 2>>, <<1, 2, 3>>, <<2, 3, 2, 2>>, <<0, 2, 2>>}}
+      [] o = "aten::avg_pool2d" ->
+           {<<TA(Mk(dt, sh, 1)), LA(ks)>> \o rest
+              : sh \in {<<1, 4, 4>>, <<1, 2, 5, 4>>, <<2, 1, 3, 5>>}, ks \in {<<2, 2>>, <<3, 2>>, <<1, 1>>},
+                rest \in {<<>>, <<LA(<<>>)>>, <<LA(<<1, 1>>)>>, <<LA(<<2, 1>>), LA(<<1, 0>>)>>, <<LA(<<2, 2>>), LA(<<1, 1>>), BA(TRUE)>>,
+                          <<LA(<<2, 2>>), LA(<<0, 0>>), BA(TRUE), BA(FALSE)>>, <<LA(<<1, 2>>), LA(<<1, 1>>), BA(FALSE), BA(FALSE)>>}}
+      [] o = "aten::max_pool2d" ->
+           {<<TA(Mk(dt, sh, 1)), LA(ks)>> \o rest
+              : sh \in {<<1, 4, 4>>, <<1, 2, 5, 4>>, <<2, 1, 3, 5>>}, ks \in {<<2, 2>>, <<3, 2>>, <<1, 1>>},
+                rest \in {<<>>, <<LA(<<>>)>>, <<LA(<<1, 1>>)>>, <<LA(<<2, 1>>), LA(<<1, 0>>)>>, <<LA(<<2, 2>>), LA(<<1, 1>>), LA(<<1, 1>>), BA(TRUE)>>,
+                          <<LA(<<1, 1>>), LA(<<0, 0>>), LA(<<2, 1>>)>>, <<LA(<<2, 2>>), LA(<<0, 0>>), LA(<<1, 1>>), BA(TRUE)>>}}
+      [] o = "aten::conv2d" ->
+           UNION {{<<TA(Mk(dt, sh, 1)), TA(Mk(dt, ws, 2))>> \o rest
+              : sh \in {<<1, 2, 4, 4>>, <<2, 2, 3, 5>>},
+                rest \in {<<>>, <<NA>>, <<TA(Mk(dt, <<ws[1]>>, 1))>>, <<NA, LA(<<2, 1>>)>>, <<NA, LA(<<1, 1>>), LA(<<1, 1>>)>>,
+                          <<NA, LA(<<1, 1>>), LA(<<0, 1>>), LA(<<2, 1>>)>>, <<NA, LA(<<1, 1>>), LA(<<0, 0>>), LA(<<1, 1>>), IA(2)>>}}
+              : ws \in {<<2, 2, 2, 2>>, <<2, 1, 3, 1>>, <<4, 2, 1, 1>>, <<2, 2, 3, 3>>}}
+    : dt \in NNDts}
 
 -----------------------------------------------------------------------------
 (* ===== dispatch over families ===== *)
+AllFamilies == {"binary", "unary", "select", "reduce", "view", "index", "create", "matmul", "nn"}
+F_binary == {"binary"}  F_unary == {"unary"}  F_select == {"select"}  F_reduce == {"reduce"}  F_view == {"view"}
+F_index == {"index"}  F_create == {"create"}  F_matmul == {"matmul"}  F_nn == {"nn"}
 FamilyOps(f) == CASE f = "binary" -> BinOps [] f = "unary" -> UnOps [] f = "select" -> SelOps [] f = "reduce" -> RedOps
-                  [] OTHER -> {}
-FamilyOf(o) == CHOOSE f \in {"binary", "unary", "select", "reduce"} : o \in FamilyOps(f)
-AllFamilies == {"binary", "unary", "select", "reduce"}
+                  [] f = "view" -> ViewOps [] f = "index" -> IdxOps [] f = "create" -> CreateOps [] f = "matmul" -> MatOps
+                  [] f = "nn" -> NNOps [] OTHER -> {}
+FamilyOf(o) == CHOOSE f \in AllFamilies : o \in FamilyOps(f)
 Menu(o) == LET f == FamilyOf(o) IN
            CASE f = "binary" -> BinMenu(o) [] f = "unary" -> UnMenu(o) [] f = "select" -> SelMenu(o) [] f = "reduce" -> RedMenu(o)
+             [] f = "view" -> ViewMenu(o) [] f = "index" -> IdxMenu(o) [] f = "create" -> CreateMenu(o) [] f = "matmul" -> MatMenu(o)
+             [] f = "nn" -> NNMenu(o)
 InDomain(o, a) == LET f == FamilyOf(o) IN
            CASE f = "binary" -> BinDom(o, a) [] f = "unary" -> UnDom(o, a) [] f = "select" -> SelDom(o, a) [] f = "reduce" -> RedDom(o, a)
+             [] f = "view" -> ViewDom(o, a) [] f = "index" -> IdxDom(o, a) [] f = "create" -> CreateDom(o, a) [] f = "matmul" -> MatDom(o, a)
+             [] f = "nn" -> NNDom(o, a)
 Aten(o, a) == LET f == FamilyOf(o) IN
            CASE f = "binary" -> BinAten(o, a) [] f = "unary" -> UnAten(o, a) [] f = "select" -> SelAten(o, a) [] f = "reduce" -> RedAten(o, a)
-Low(o, a, devs) == Aten(o, a)
+             [] f = "view" -> ViewAten(o, a) [] f = "index" -> IdxAten(o, a) [] f = "create" -> CreateAten(o, a) [] f = "matmul" -> MatAten(o, a)
+             [] f = "nn" -> NNAten(o, a)
+
+-----------------------------------------------------------------------------
+(* ===== the implementation model: torch_lib lowerings on ONNX operator semantics =====                    *)
+(* ONNX-level helpers.  An ONNX operator with a type variable T refuses operands of different element      *)
+(* types (the model is rejected when it is loaded); a python scalar passed to an ONNX operator takes the   *)
+(* element type of the tensor operand bound to the same type variable (OpRecorder), and when every operand *)
+(* is a python value an int becomes INT64, a float FLOAT, a bool BOOL.                                     *)
+BIG == 1000000                       \* stands for INT64_MAX (TLC integers are 32 bit)
+OBin(f, x, y) == IF IsErr(x) \/ IsErr(y) THEN ERR ELSE IF x.dt # y.dt THEN ERR
+                 ELSE LET odt == IF f \in CmpF THEN "bool" ELSE x.dt IN Map2(x, y, odt, LAMBDA p, q : Wrap(odt, BinV(f, x.dt, p, q)))
+OCast(t, dt) == IF IsErr(t) THEN ERR ELSE CastT(t, dt)
+PyLike(x, t) == Scalar(t.dt, Wrap(t.dt, x.v))
+PyConst(x) == Scalar(NumDt(x), x.v)
+\* ReduceX(data, axes, keepdims): axes is a sequence; empty = all axes (noop_with_empty_axes = 0);
+\* an axis outside [-r, r-1] is an error, but a rank-0 input is returned unchanged by the runtime kernel
+OReduce(k, t, axes, keep) ==
+  IF IsErr(t) THEN ERR
+  ELSE LET r == Rank(t) IN
+       IF r = 0 THEN t
+       ELSE IF \E j \in 1..Len(axes) : axes[j] \notin DimsOf(r) THEN ERR
+       ELSE FoldFor(k, t.dt, t, IF axes = <<>> THEN 0..(r - 1) ELSE {NormDim(axes[j], r) : j \in 1..Len(axes)}, keep)
+ToRes(t) == IF IsErr(t) THEN Refused ELSE One(t)
+
+(* aten_add / aten_sub *)
+LowAddSub(o, a, devs) ==
+  LET self == TOf(P(a, 1)) o2 == P(a, 2) al == Kw(a, "alpha") f == BinFun(o, a)
+      scaled == Given(al) /\ al.v # 1
+  IN IF self.dt = "bool" /\ f = "add"
+       THEN (IF Given(al) /\ al.v = 0 THEN One(self)                         \* Identity(self)
+             ELSE ToRes(OBin("lor", self, IF o2.k = "t" THEN TOf(o2) ELSE PyLike(o2, self))))
+     ELSE IF o \in {"aten::add.Scalar", "aten::sub.Scalar"} \/ o2.k = "t"
+       THEN LET other == IF o2.k = "t" THEN TOf(o2) ELSE PyLike(o2, self)    \* .Scalar: Constant(other, dtype=self.dtype)
+                o3 == IF scaled THEN OBin("mul", other, PyLike(al, other)) ELSE other   \* CastLike(alpha, other); Mul
+            IN ToRes(OBin(f, self, o3))
+     ELSE \* Tensor overload called with a python scalar `other`
+          IF scaled
+          THEN LET \* CastLike(alpha, other) and Mul(other, alpha) see python values only: the product is an
+                   \* INT64 / FLOAT constant, which Add/Sub then meets with `self`
+                   prod == IF "alpha_scalar_other_type" \in devs THEN Scalar(NumDt(o2), o2.v * al.v)
+                           ELSE Scalar(self.dt, Wrap(self.dt, o2.v * al.v))
+               IN ToRes(OBin(f, self, prod))
+          ELSE ToRes(OBin(f, self, PyLike(o2, self)))
+
+(* reductions *)
+DtypeArg(a) == LET d == Kw(a, "dtype") IN IF Given(d) /\ d.k = "dt" THEN d.s ELSE "none"     \* None reaches the function as -1
+LowReduce(o, a, devs) ==
+  LET self == TOf(P(a, 1)) r == Rank(self) dt == self.dt dta == DtypeArg(a) keep == RedKeep(o, a) d == RedDimArg(o, a)
+      dimsSeq == IF ~Given(d) THEN <<>> ELSE IF d.k = "i" THEN <<d.v>> ELSE d.data
+      PostCast(t) == IF dta # "none" THEN OCast(t, dta) ELSE t
+      \* repaired code: integer inputs accumulate in INT64 (as aten_prod already does)
+      Acc(t) == IF dta = "none" /\ IsInt(t.dt) /\ "reduce_int_keeps_dtype" \notin devs THEN CastT(t, "i64") ELSE t
+      U8(t) == IF IsErr(t) THEN ERR ELSE IF dt = "u8" /\ "all_any_uint8_bool" \notin devs THEN CastT(t, "u8") ELSE t
+      AsInt == CastT(CastT(self, "bool"), "i64")
+      k == RedKind(o)
+      \* ReduceMax over nothing yields the lowest INT64, which Cast(to=BOOL) turns into True
+      AnyAll(axes, kp) == LET red == OReduce(IF k = "any" THEN "max" ELSE "min", AsInt, axes, kp)
+                              fixed == IF k = "any" /\ "any_empty_true" \notin devs /\ ~IsErr(red) THEN Map1(red, "i64", LAMBDA v : IF v = -100000 THEN 0 ELSE v) ELSE red
+                          IN U8(OCast(fixed, "bool"))
+  IN CASE o = "aten::sum" -> ToRes(PostCast(IF r = 0 THEN Acc(self) ELSE OReduce("sum", Acc(self), <<>>, FALSE)))
+       [] o = "aten::sum.dim_IntList" ->
+            ToRes(PostCast(IF r = 0 THEN Acc(self) ELSE OReduce("sum", Acc(self), dimsSeq, keep)))
+       [] o = "aten::prod" ->       \* casts to dtype first, or to INT64 for integer inputs
+            ToRes(OReduce("prod", IF dta # "none" THEN CastT(self, dta) ELSE IF IsInt(dt) THEN CastT(self, "i64") ELSE self, <<>>, FALSE))
+       [] o = "aten::prod.dim_int" ->
+            LET x == IF dta # "none" THEN CastT(self, dta) ELSE Acc(self) IN
+            \* ReduceProd(axes=[dim]) with a constant axis on a rank-0 input does not pass shape inference
+            IF r = 0 THEN (IF "prod_dim_scalar_input" \in devs THEN Refused ELSE One(x)) ELSE ToRes(OReduce("prod", x, dimsSeq, keep))
+       [] o = "aten::cumsum" ->
+            LET x == IF dta # "none" THEN CastT(self, dta) ELSE Acc(self) IN
+            One(IF r = 0 THEN x ELSE CastT(CumSumT(x, NormDim(d.v, r)), x.dt))
+       [] o \in {"aten::amax", "aten::amin"} ->
+            \* scripted: `dim` is a required input of the function
+            IF ~Given(d) THEN (IF "amax_dim_required" \in devs THEN Refused ELSE One(FoldFor(k, dt, self, 0..(r - 1), FALSE)))
+            ELSE IF r = 0 /\ dimsSeq # <<>> THEN (IF "amax_scalar_dims" \in devs THEN Refused ELSE One(self))
+            ELSE ToRes(OReduce(k, self, dimsSeq, keep))
+       [] o \in {"aten::any", "aten::all"} -> ToRes(IF r = 0 THEN U8(CastT(self, "bool")) ELSE AnyAll(<<>>, FALSE))
+       [] o \in {"aten::any.dim", "aten::all.dim"} -> ToRes(AnyAll(dimsSeq, keep))
+       [] o \in {"aten::any.dims", "aten::all.dims"} ->
+            IF ~Given(d) \/ (dimsSeq = <<>> /\ "any_all_dims_empty_list" \in devs)        \* `if not dim:` also catches ()
+              THEN ToRes(IF r = 0 THEN U8(CastT(self, "bool")) ELSE AnyAll(<<>>, keep))
+            ELSE IF dimsSeq = <<>> THEN One(U8(CastT(self, "bool")))
+            \* one ReduceX(keepdims=1) per listed dim, then Squeeze(self, dims) - which a rank-0 tensor refuses
+            ELSE IF r = 0 /\ ~keep /\ "any_all_dims_scalar_input" \in devs THEN Refused
+            ELSE ToRes(AnyAll(dimsSeq, keep))
+       [] o \in {"aten::argmax", "aten::argmin"} ->
+            IF ~Given(P(a, 2))
+              THEN LET flat == T(dt, <<Numel(self.shape)>>, self.data)            \* Reshape(self, [-1]); ArgMax(keepdims=keepdim)
+                       res == ArgExt(flat, 0, keep, k = "max")
+                   IN IF r = 0 THEN One(T("i64", <<>>, res.data))                  \* Squeeze
+                      ELSE IF keep /\ "argmax_none_keepdim_shape" \notin devs THEN One(T("i64", [i \in 1..r |-> 1], res.data))
+                      ELSE One(res)
+            ELSE Aten(o, a)
+       [] o = "aten::mean" ->       \* scripted aten_mean(self): there is no dtype parameter, a dtype= keyword is dropped
+            Struct(IF "mean_dtype_ignored" \in devs THEN dt ELSE (IF dta # "none" THEN dta ELSE dt), <<>>)
+       [] o = "aten::mean.dim" ->   \* dims = Reshape(dim, [-1]) with dim = None is not a valid node
+            IF r > 0 /\ ~Given(d) /\ "mean_dim_none" \in devs THEN Refused ELSE Aten(o, a)
+       [] OTHER -> Aten(o, a)
+
+(* view family *)
+LowView(o, a, devs) ==
+  LET self == TOf(P(a, 1)) r == Rank(self) sh == self.shape dt == self.dt IN
+  CASE o \in {"aten::reshape", "aten::view_copy"} ->      \* Reshape(self, size): a 0 in `size` copies the input dim
+         ToRes(Reshape(self, P(a, 2).data, "reshape_zero_copies" \notin devs))
+    [] o \in {"aten::view", "aten::_unsafe_view"} -> ToRes(Reshape(self, P(a, 2).data, TRUE))
+    [] o = "aten::expand" -> ToRes(Expand(self, [i \in 1..Len(P(a, 2).data) |-> IF P(a, 2).data[i] = -1 THEN 1 ELSE P(a, 2).data[i]]))
+    [] o = "aten::broadcast_to" ->        \* no -1 translation here
+         LET sz == P(a, 2).data IN
+         IF \E i \in 1..Len(sz) : sz[i] = -1
+           THEN (IF "broadcast_to_minus_one" \in devs THEN Refused ELSE Aten(o, a))
+         ELSE ToRes(Expand(self, sz))
+    [] o = "aten::squeeze.dim" ->         \* Squeeze(self, [dim]) refuses an axis whose extent is not 1
+         IF r = 0 THEN One(self)
+         ELSE IF sh[NormDim(P(a, 2).v, r) + 1] # 1 /\ "squeeze_dim_non_unit" \notin devs THEN One(self)
+         ELSE ToRes(Squeeze(self, <<P(a, 2).v>>))
+    [] o = "aten::flatten.using_ints" ->
+         LET s0 == IntOr(P(a, 2), 0) e0 == IntOr(P(a, 3), -1) IN
+         IF r = 1 THEN One(self)
+         ELSE IF s0 = 1 /\ e0 \in {-1, r - 1} THEN One(T(dt, <<sh[1], SeqProd(SubSeq(sh, 2, r))>>, self.data))           \* Flatten(axis=1)
+         ELSE IF s0 = 0 /\ e0 \in {-2, r - 2} THEN                                                                       \* Flatten(axis=end+1)
+              LET ax == NormDim(e0 + 1, r) IN One(T(dt, <<SeqProd(SubSeq(sh, 1, ax)), SeqProd(SubSeq(sh, ax + 1, r))>>, self.data))
+         ELSE IF "flatten_zero_size" \notin devs THEN Aten(o, a)
+         ELSE LET e == IF e0 < 0 THEN r + e0 ELSE e0
+                  shp == Vec("i64", sh)
+                  head == Slice(shp, <<0>>, <<s0>>, <<0>>, <<1>>)                   \* Shape(self)[0:start_dim]
+                  tail == IF e < r - 1 THEN Slice(shp, <<e + 1>>, <<r>>, <<0>>, <<1>>) ELSE Vec("i64", <<>>)
+              IN IF IsErr(head) \/ IsErr(tail) THEN Refused
+                 ELSE ToRes(Reshape(self, head.data \o <<-1>> \o tail.data, FALSE))  \* Reshape(self, head ++ [-1] ++ tail)
+    [] OTHER -> Aten(o, a)
+
+(* index family *)
+\* SplitToSequence(x, split(scalar), axis): equal chunks of `split`, the last one smaller; nothing for an empty axis
+SplitScalar(t, ax, ss) == LET n == t.shape[ax + 1] IN SplitBy(t, ax, [j \in 1..CeilDiv(n, ss) |-> Min2(ss, n - (j - 1) * ss)])
+\* Slice along one axis with ONNX clamping
+Slice1(t, ax, s, e, st) == Slice(t, <<s>>, <<e>>, <<ax>>, <<st>>)
+RollAxisLow(t, shift, dim) ==      \* _aten_roll_shift_and_dim_onnx
+  LET r == Rank(t) n == t.shape[NormDim(dim, r) + 1]
+      len == IF shift < 0 THEN -shift ELSE n - shift
+      suffix == Slice1(t, dim, 0, len, 1)
+      prefix == Slice1(t, dim, len, Numel(t.shape), 1)        \* the end bound is Size(self), not the extent of `dim`
+  IN Concat(<<prefix, suffix>>, dim)
+RECURSIVE RollSeqLow(_, _, _)
+RollSeqLow(t, shifts, dims) == IF shifts = <<>> \/ IsErr(t) THEN t ELSE RollSeqLow(RollAxisLow(t, Head(shifts), Head(dims)), Tail(shifts), Tail(dims))
+LowIndex(o, a, devs) ==
+  IF o = "aten::cat" THEN
+     LET ts == TList(a, 1) d == IntOr(AfterTL(a, 1, 1), 0) kept == CatKept(ts) IN
+     IF "cat_legacy_empty" \notin devs THEN Aten(o, a)
+     ELSE IF kept = <<>> THEN Refused                                   \* assert filtered_tensors
+     ELSE IF Len(kept) = 1 THEN One(kept[1])
+     ELSE ToRes(Concat(ts, d))                                          \* Concat(*tensors): the unfiltered list
+  ELSE
+  LET self == TOf(P(a, 1)) r == Rank(self) sh == self.shape dt == self.dt IN
+  CASE o = "aten::split.Tensor" ->
+         LET ax == NormDim(IntOr(P(a, 3), 0), r) IN
+         IF sh[ax + 1] = 0 /\ "split_empty_dim" \notin devs THEN Aten(o, a) ELSE Lst(SplitScalar(self, ax, P(a, 2).v))
+    [] o = "aten::chunk" ->
+         LET ax == NormDim(IntOr(P(a, 3), 0), r) n == sh[ax + 1] c == P(a, 2).v cs == CeilDiv(n, c) IN
+         IF c = 1 THEN (IF "chunk_single_not_list" \in devs THEN One(self) ELSE Aten(o, a))       \* Identity(self)
+         \* Split(self, axis, num_outputs=chunks): chunks outputs of ceil(n/chunks), the last smaller - impossible
+         \* when ATen would return fewer chunks
+         ELSE IF n > 0 /\ cs * (c - 1) >= n THEN (IF "chunk_count" \in devs THEN Refused ELSE Aten(o, a))
+         ELSE Aten(o, a)
+    [] o = "aten::narrow" ->
+         LET ax == NormDim(P(a, 2).v, r) n == sh[ax + 1] st == P(a, 3).v
+             st2 == IF st < 0 /\ "narrow_negative_start" \notin devs THEN st + n ELSE st
+         IN ToRes(Slice1(self, P(a, 2).v, st2, st2 + P(a, 4).v, 1))          \* Slice(self, start, start + length, dim)
+    [] o = "aten::slice.Tensor" ->
+         ToRes(Slice1(self, IntOr(P(a, 2), 0), IF Given(P(a, 3)) THEN P(a, 3).v ELSE 0, IF Given(P(a, 4)) THEN P(a, 4).v ELSE BIG, IntOr(P(a, 5), 1)))
+    [] o = "aten::select.int" -> ToRes(Gather(self, Scalar("i64", P(a, 3).v), P(a, 2).v))
+    [] o = "aten::flip" ->
+         LET d == P(a, 2).data IN
+         IF d = <<>> THEN One(self)
+         ELSE IF r = 0 THEN (IF "flip_scalar" \in devs THEN Refused ELSE One(self))   \* Slice needs rank >= 1
+         ELSE ToRes(Slice(self, [i \in 1..Len(d) |-> -1], [i \in 1..Len(d) |-> -BIG], d, [i \in 1..Len(d) |-> -1]))
+    [] o = "aten::roll" ->
+         LET s == P(a, 2).data d == IF Given(P(a, 3)) THEN P(a, 3).data ELSE <<>> IN
+         IF r = 0 \/ sh[1] = 0 THEN One(self)
+         ELSE IF "roll_onnx_edges" \notin devs THEN Aten(o, a)
+         ELSE IF d = <<>> THEN
+              LET flat == T(dt, <<Numel(sh)>>, self.data)
+                  len == IF s[1] < 0 THEN -s[1] ELSE Numel(sh) - s[1]
+                  suffix == Slice1(flat, 0, 0, len, 1)
+                  prefix == Slice1(flat, 0, len, Numel(sh), 1)
+              IN ToRes(Reshape(Concat(<<prefix, suffix>>, 0), sh, FALSE))
+         \* Shape(self, start=dim, end=dim+1) is empty for dim = -1, the Slice that follows is refused
+         ELSE IF \E i \in 1..Len(d) : d[i] = -1 /\ s[i] >= 0 THEN Refused
+         ELSE ToRes(RollSeqLow(self, s, d))
+    [] o = "aten::constant_pad_nd" ->
+         IF r = 0 /\ "pad_scalar" \in devs THEN Refused ELSE Aten(o, a)
+    [] OTHER -> Aten(o, a)
+
+LowCreate(o, a, devs) ==
+  IF o = "aten::arange.start" /\ ~Given(Kw(a, "dtype")) /\ P(a, 1).k # P(a, 2).k /\ "arange_mixed_scalars" \in devs
+    THEN Refused           \* Range(start, end, CastLike(1.0, end)): an INT64 and a FLOAT constant
+  ELSE Aten(o, a)
+
+LowNN(o, a, devs) ==
+  \* Div(1.0, Sqrt(running_var + eps)) mixes a FLOAT constant with a half tensor
+  IF o = "aten::_native_batch_norm_legit_no_training" /\ P(a, 1).s = "f16" /\ "batch_norm_half" \in devs THEN Refused
+  ELSE Aten(o, a)
+
+Low(o, a, devs) ==
+  CASE o \in {"aten::add.Tensor", "aten::sub.Tensor", "aten::add.Scalar", "aten::sub.Scalar"} -> LowAddSub(o, a, devs)
+    [] o \in RedOps -> LowReduce(o, a, devs)
+    [] o \in ViewOps -> LowView(o, a, devs)
+    [] o \in IdxOps -> LowIndex(o, a, devs)
+    [] o \in CreateOps -> LowCreate(o, a, devs)
+    [] o \in NNOps -> LowNN(o, a, devs)
+    [] OTHER -> Aten(o, a)
 
 -----------------------------------------------------------------------------
 (* ===== the state machine ===== *)
@@ -531,7 +1282,9 @@ Eval == /\ stage = "picked"
         /\ exp' = Aten(op, args)
         /\ impl' = Low(op, args, Deviations)
         /\ ideal' = Low(op, args, {})
-        /\ why' = {d \in Deviations : ~SameRes(Low(op, args, Deviations \ {d}), Low(op, args, Deviations))}
+        \* attribution: the deviations without which the implementation model would answer differently
+        /\ why' = IF SameRes(Low(op, args, Deviations), Aten(op, args)) THEN {}
+                  ELSE {d \in Deviations : ~SameRes(Low(op, args, Deviations \ {d}), Low(op, args, Deviations))}
         /\ UNCHANGED <<op, args>>
 Next == Pick \/ Eval
 Spec == Init /\ [][Next]_vars
@@ -549,6 +1302,8 @@ DesignOK == stage = "done" => SameRes(ideal, exp)
 DeviationsExplain == stage = "done" => (SameRes(impl, exp) \/ why # {})
 CaseRec == [op |-> op, args |-> args, exp |-> exp, impl |-> impl, why |-> why]
 EmitCases == stage = "done" => PrintT("C08CASE " \o ToJson(CaseRec))
-\* vacuity witnesses (each must be VIOLATED)
+\* vacuity witnesses (each must be VIOLATED): a case exists; the property is not trivially true (with the
+\* deviations switched on the implementation model does depart from ATen)
 NoCase == stage # "done"
+ImplOK == stage = "done" => SameRes(impl, exp)
 =============================================================================
